@@ -1,324 +1,1003 @@
-(* The two reference-count operations of memory.rs (share_block_n, erase_block) on the ISA semantics:
-   the code the model emits, sitting in an image with its labels, runs from its first to just past
-   its last instruction and has the pure heap-level effect share_h / erase_h of Proof/X86Exec.v. *)
+(* Refinement of the two simplest allocator operations to the x86-64 code of axcut2x86_64's
+   memory.rs, on the ISA semantics of Sem/X86Sem.v:
+     - abs_heap: the abstraction of a machine state to the abstract allocator state of Model/Heap.v
+       (header = word 0 of a block, pointer slots = the words at offsets 16, 32, 48, heap / free =
+       the two allocator registers, the frontier a ghost);
+     - structured execution of code with forward jumps (`steps`), for code placed anywhere in an
+       image whose labels resolve to their positions (shown for mk_image with duplicate-free labels);
+     - x86_share_block_ok, x86_erase_block_ok: the emitted code of share_block_n / erase_block,
+       the pointer in a register or in a spill slot, null included, all branches. *)
 From Coq Require Import List ZArith NArith String Bool Lia FMapPositive.
 From SCC Require Import Base.Sexp Lang.AxSyn Sem.AxSem Model.Backend Model.X86 Sem.X86Sem Generated.Constants
-     Proof.X86State Proof.X86Sel Proof.X86Exec.
+  Proof.X86State Proof.X86Sel.
+From SCC Require Model.Heap.
 Import ListNotations.
 Open Scope Z_scope.
 
-(* ---------- small facts ---------- *)
-Lemma block_ok_nz p : block_ok p -> (p =? 0) = false.
-Proof. intros (_ & H). apply Z.eqb_neq. intros ->. vm_compute in H. discriminate. Qed.
+(* ---------- the abstraction ---------- *)
+Definition hword (s : xstate) (a : Z) : Z :=
+  match PM.find (key a) (heap s) with Some z => z | None => 0 end.
+Definition abs_mem (s : xstate) : Heap.mem :=
+  fun a => {| Heap.hdr := hword s a; Heap.ps := [hword s (a + 16); hword s (a + 32); hword s (a + 48)] |}.
+Definition reg_or0 (s : xstate) (r : N) : Z := match rget s r with Some z => z | None => 0 end.
+Definition abs_heap (F : Z) (s : xstate) : Heap.st :=
+  {| Heap.m := abs_mem s; Heap.heap := reg_or0 s HEAP; Heap.free := reg_or0 s FREE; Heap.frontier := F |}.
 
-Lemma TEMP_ne_FREE : TEMP <> FREE. Proof. vm_compute. congruence. Qed.
-Lemma TEMP_ne_0 : TEMP <> 0%N. Proof. vm_compute. congruence. Qed.
+(* block addresses of the heap region *)
+Definition is_blk (a : Z) : Prop := exists k, 0 <= k /\ a = HEAP_BASE + 64 * k /\ a + 64 <= HEAP_BASE + HEAP_SIZE.
+(* equality of abstract states on the blocks (memories are functions; no extensionality axiom) *)
+Definition st_eqB (a b : Heap.st) : Prop :=
+  Heap.heap a = Heap.heap b /\ Heap.free a = Heap.free b /\ Heap.frontier a = Heap.frontier b /\
+  forall x, is_blk x -> Heap.m a x = Heap.m b x.
 
-Lemma rget_set_heap s a v r : rget (set_heap s a v) r = rget s r. Proof. reflexivity. Qed.
+(* ---------- heap accesses ---------- *)
+Definition heap_addr (a : Z) : Prop := a mod 8 = 0 /\ HEAP_BASE <= a /\ a + 8 <= HEAP_BASE + HEAP_SIZE.
+Definition hset (s : xstate) (a z : Z) : xstate :=
+  {| regs := regs s; heap := PM.add (key a) z (heap s); stack := stack s; flags := flags s; out := out s;
+     hw := Z.max (hw s) a |}.
 
-Lemma block_not_stack p : block_ok p -> in_stack p = false.
+Lemma is_blk_addr p i : is_blk p -> (i = 0 \/ i = 16 \/ i = 32 \/ i = 48) -> heap_addr (p + i).
 Proof.
-  intros (_ & H). unfold in_heap, in_stack, STACK_LIMIT, STACK_TOP, HEAP_BASE, HEAP_SIZE in *.
-  apply andb_true_iff in H as [H1 H2]. apply Z.leb_le in H1, H2.
-  apply andb_false_iff. left. apply Z.leb_gt. lia.
+  intros (k & Hk & -> & Hhi) Hi. unfold heap_addr, HEAP_BASE, HEAP_SIZE in *.
+  repeat split; try lia.
+  replace (268435456 + 64 * k + i) with (i + (33554432 + 8 * k) * 8) by lia. rewrite Z.mod_add by lia.
+  destruct Hi as [->|[->|[->| ->]]]; reflexivity.
+Qed.
+Lemma heap_addr_facts a : heap_addr a -> aligned a = true /\ in_heap a = true /\ in_stack a = false /\ 0 <= a.
+Proof.
+  intros (A & L & H). unfold aligned, in_heap, in_stack, HEAP_BASE, HEAP_SIZE, STACK_LIMIT, STACK_TOP in *.
+  rewrite A. repeat split; try lia.
+  all: try (apply andb_true_iff; split; apply Z.leb_le; lia).
+  all: try (apply andb_false_iff; left; apply Z.leb_gt; lia).
 Qed.
 
-(* ---------- single steps on a heap block ---------- *)
+Lemma mload_heap s a : heap_addr a -> mload s a = MOk (Some (hword s a)).
+Proof. intros H. destruct (heap_addr_facts a H) as (A & B & _ & _). unfold mload. now rewrite A, B. Qed.
+Lemma mstore_heap s a z : heap_addr a -> mstore s a (Some z) = MOk (hset s a z).
+Proof. intros H. destruct (heap_addr_facts a H) as (A & B & _ & _). unfold mstore. now rewrite A, B. Qed.
+Lemma ea_heap s r i p k : rget s r = Some p -> heap_addr (p + i) -> ea s r i k = k (p + i).
+Proof. intros R H. destruct (heap_addr_facts _ H) as (_ & _ & C & _). unfold ea, need. now rewrite R, C. Qed.
+
+Lemma hword_hset_same s a z : hword (hset s a z) a = z.
+Proof. unfold hword, hset; cbn. now rewrite PM.gss. Qed.
+Lemma hword_hset_other s a z b : 0 <= a -> 0 <= b -> a <> b -> hword (hset s a z) b = hword s b.
+Proof. intros A B H. unfold hword, hset; cbn. rewrite PM.gso; auto. intro E. apply key_inj in E; auto. Qed.
+Lemma rget_hset s a z r : rget (hset s a z) r = rget s r. Proof. reflexivity. Qed.
+Lemma stack_hset s a z : stack (hset s a z) = stack s. Proof. reflexivity. Qed.
+Lemma out_hset s a z : out (hset s a z) = out s. Proof. reflexivity. Qed.
+Lemma hword_rset s r v a : hword (rset s r v) a = hword s a. Proof. reflexivity. Qed.
+Lemma hword_set_flags s f a : hword (set_flags s f) a = hword s a. Proof. reflexivity. Qed.
+Lemma frame_ok_hset s sp a z : frame_ok s sp -> frame_ok (hset s a z) sp.
+Proof. intros (A & B). split; [exact A|exact B]. Qed.
+
+(* ---------- single instructions on heap words ---------- *)
 Section HeapSteps.
 Variable im : image.
-
+Lemma step_CMPI0 s r v : rget s r = Some v -> step im (CMPI r 0) s = Next (set_flags s (Some (v, 0))).
+Proof. intros H. cbn [step]. change (fits32 0) with true. unfold need. now rewrite H. Qed.
+Lemma step_CMPIM0_slot s sp q v :
+  frame_ok s sp -> slot_ok q -> sget s sp q = Some v ->
+  step im (CMPIM STACK (stack_offset q) 0) s = Next (set_flags s (Some (v, 0))).
+Proof.
+  intros F Q H. cbn [step]. change (fits32 0) with true. rewrite (ea_stack s sp) by auto. unfold withm, need.
+  rewrite mload_slot by auto. now rewrite H.
+Qed.
+Lemma step_CMPIM0_heap s r p :
+  rget s r = Some p -> heap_addr p ->
+  step im (CMPIM r 0 0) s = Next (set_flags s (Some (hword s p, 0))).
+Proof.
+  intros R H. cbn [step]. change (fits32 0) with true. rewrite (ea_heap s r 0 p) by (auto; now rewrite Z.add_0_r).
+  rewrite Z.add_0_r. unfold withm, need. now rewrite mload_heap.
+Qed.
 Lemma step_ADDIM_heap s r p j :
-  rget s r = Some p -> block_ok p -> fits32 j = true ->
-  step im (ADDIM r REFERENCE_COUNT_OFFSET j) s =
-    Next (set_flags (set_heap s p (wrap (hget (heap s) p + j))) None).
+  rget s r = Some p -> heap_addr p -> fits32 j = true ->
+  step im (ADDIM r 0 j) s = Next (set_flags (hset s p (wrap (hword s p + j))) None).
 Proof.
-  intros R B Fj. cbn [step]. rewrite Fj. unfold ea, need. rewrite R.
-  change REFERENCE_COUNT_OFFSET with 0. rewrite Z.add_0_r. cbv zeta. rewrite (block_not_stack p) by assumption. unfold withm.
-  rewrite mload_heap by exact B. cbv beta iota. rewrite mstore_heap by exact B. reflexivity.
+  intros R H J. cbn [step]. rewrite J. rewrite (ea_heap s r 0 p) by (auto; now rewrite Z.add_0_r).
+  rewrite Z.add_0_r. unfold withm, need. rewrite mload_heap by auto. now rewrite mstore_heap.
 Qed.
-
-Lemma step_CMPIM_heap s r p :
-  rget s r = Some p -> block_ok p ->
-  step im (CMPIM r REFERENCE_COUNT_OFFSET 0) s = Next (set_flags s (Some (hget (heap s) p, 0))).
+Lemma step_MOVS_heap s a b p v :
+  rget s b = Some p -> heap_addr p -> rget s a = Some v ->
+  step im (MOVS a b 0) s = Next (hset s p v).
 Proof.
-  intros R B. cbn [step]. change (fits32 0) with true. cbv iota. unfold ea, need. rewrite R.
-  change REFERENCE_COUNT_OFFSET with 0. rewrite Z.add_0_r. cbv zeta. rewrite (block_not_stack p) by assumption. unfold withm.
-  rewrite mload_heap by exact B. reflexivity.
+  intros R H A. cbn [step]. rewrite (ea_heap s b 0 p) by (auto; now rewrite Z.add_0_r).
+  rewrite Z.add_0_r. unfold withm. now rewrite A, mstore_heap.
 Qed.
-
-Lemma step_MOVS_heap s a r p f :
-  rget s r = Some p -> block_ok p -> rget s a = Some f ->
-  step im (MOVS a r NEXT_ELEMENT_OFFSET) s = Next (set_heap s p f).
-Proof.
-  intros R B A. cbn [step]. unfold ea, need. rewrite R.
-  change NEXT_ELEMENT_OFFSET with 0. rewrite Z.add_0_r. cbv zeta. rewrite (block_not_stack p) by assumption. unfold withm.
-  rewrite A. rewrite mstore_heap by exact B. reflexivity.
-Qed.
-
-Lemma step_JEL_taken s l x y i :
-  flags s = Some (x, y) -> x = y -> find_label (labels im) l = Some i ->
-  step im (JEL l) s = Jump s i.
-Proof.
-  intros H E HL. cbn [step]. unfold cond_jump, goto_label. rewrite H. cbn [eval_cmp].
-  subst y. rewrite Z.eqb_refl, HL. reflexivity.
-Qed.
-
-Lemma step_JEL_not s l x y :
-  flags s = Some (x, y) -> x <> y -> step im (JEL l) s = Next s.
-Proof.
-  intros H E. cbn [step]. unfold cond_jump. rewrite H. cbn [eval_cmp].
-  apply Z.eqb_neq in E. rewrite E. reflexivity.
-Qed.
-
-Lemma step_JMPL s l i : find_label (labels im) l = Some i -> step im (JMPL l) s = Jump s i.
-Proof. intros HL. cbn [step]. unfold goto_label. rewrite HL. reflexivity. Qed.
+Lemma step_JEL s l x y :
+  flags s = Some (x, y) ->
+  step im (JEL l) s = if x =? y then goto_label im s l else Next s.
+Proof. intros H. cbn [step]. unfold cond_jump. now rewrite H. Qed.
 End HeapSteps.
 
-(* ---------- skip_if_zero ---------- *)
-Lemma skip_if_zero_shape t body lc :
-  exists c0 l,
-    fst (skip_if_zero t body lc) = (c0 :: JEL l :: body ++ [LAB l])%list /\
-    forall im s sp a, frame_ok s sp -> loc_ok t -> lget s sp t = Some a ->
-                      step im c0 s = Next (set_flags s (Some (a, 0))).
+(* ---------- structured execution ---------- *)
+Fixpoint pnth (p : positive) (n : nat) : positive :=
+  match n with O => p | S k => Pos.succ (pnth p k) end.
+Lemma pnth_succ p n : pnth (Pos.succ p) n = Pos.succ (pnth p n).
+Proof. induction n; cbn; congruence. Qed.
+Lemma pnth_add p a b : pnth (pnth p a) b = pnth p (a + b).
+Proof. induction b; cbn; rewrite ?Nat.add_0_r, <- ?plus_n_Sm; cbn; congruence. Qed.
+
+(* the instruction list cs sits in the image from index pos on, and its labels resolve to their
+   positions *)
+Definition code_at (im : image) (pos : positive) (cs : list xcode) : Prop :=
+  forall n c, nth_error cs n = Some c -> PM.find (pnth pos n) (code im) = Some c.
+Definition labels_at (im : image) (pos : positive) (cs : list xcode) : Prop :=
+  forall n l, nth_error cs n = Some (LAB l) -> find_label (labels im) l = Some (pnth pos n).
+
+Inductive steps (im : image) : positive -> xstate -> positive -> xstate -> Prop :=
+| steps_refl pc s : steps im pc s pc s
+| steps_next pc s c s1 pc' s' :
+    PM.find pc (code im) = Some c -> step im c s = Next s1 -> steps im (Pos.succ pc) s1 pc' s' ->
+    steps im pc s pc' s'
+| steps_jump pc s c s1 i pc' s' :
+    PM.find pc (code im) = Some c -> step im c s = Jump s1 i -> steps im i s1 pc' s' ->
+    steps im pc s pc' s'.
+
+Lemma steps_trans im pc s pc1 s1 pc2 s2 : steps im pc s pc1 s1 -> steps im pc1 s1 pc2 s2 -> steps im pc s pc2 s2.
+Proof. induction 1; intros H2; auto; [eapply steps_next|eapply steps_jump]; eauto. Qed.
+
+(* `steps` is what the executable runner does *)
+Lemma steps_run_chunk im pc s pc' s' :
+  steps im pc s pc' s' -> exists n, forall fuel, run_chunk (n + fuel) im pc s = run_chunk fuel im pc' s'.
 Proof.
-  destruct t as [r|q]; eexists; eexists; (split; [reflexivity|]); intros im s sp a F T A;
-    pose proof (x86_compare_zero_ok im s sp _ a F T A) as H; cbn [compare_immediate exec_straight] in H.
-  - destruct (step im (CMPI r 0) s); try discriminate. injection H as ->. reflexivity.
-  - destruct (step im (CMPIM STACK (stack_offset q) 0) s); try discriminate. injection H as ->. reflexivity.
+  induction 1 as [pc s|pc s c s1 pc' s' Hc Hs _ [n IH]|pc s c s1 i pc' s' Hc Hs _ [n IH]].
+  - exists O. reflexivity.
+  - exists (S n). intros fuel. cbn [Nat.add run_chunk]. rewrite Hc, Hs. apply IH.
+  - exists (S n). intros fuel. cbn [Nat.add run_chunk]. rewrite Hc, Hs. apply IH.
 Qed.
 
-Lemma skip_if_zero_parts im pc t body lc :
-  let code := fst (skip_if_zero t body lc) in
-  code_at im pc code -> labels_at im pc code ->
-  code_at im (padd pc 2) body /\ labels_at im (padd pc 2) body.
+(* mk_image places a program at index 1 and resolves duplicate-free labels to their positions *)
+Lemma build_code_below : forall cs i a im j, (j < i)%positive -> PM.find j (code (build cs i a im)) = PM.find j (code im).
 Proof.
-  intros code C L. subst code. destruct (skip_if_zero_shape t body lc) as (c0 & l & E & _). rewrite E in *.
-  change (c0 :: JEL l :: body ++ [LAB l])%list with (([c0; JEL l] ++ body) ++ [LAB l])%list in *.
-  apply code_at_app in C as [C _]. apply code_at_app in C as [_ C].
-  apply labels_at_app in L as [L _]. apply labels_at_app in L as [_ L].
-  split; [exact C | exact L].
+  induction cs as [|c r IH]; intros i a im j Hj; cbn [build code]; auto.
+  rewrite IH by lia. cbn [code]. apply PM.gso. lia.
+Qed.
+Lemma build_code_at : forall cs i a im, code_at (build cs i a im) i cs.
+Proof.
+  induction cs as [|c r IH]; intros i a im n c0 Hn; [destruct n; discriminate|].
+  destruct n as [|n]; cbn [nth_error pnth] in *.
+  - inversion Hn; subst. cbn [build]. rewrite build_code_below by lia. cbn [code]. apply PM.gss.
+  - cbn [build]. rewrite <- pnth_succ. eapply IH; eauto.
+Qed.
+Definition label_names (cs : list xcode) : list string :=
+  flat_map (fun c => match c with LAB l => [l] | _ => [] end) cs.
+Lemma build_labels_old : forall cs i a im l,
+  ~ In l (label_names cs) -> find_label (labels (build cs i a im)) l = find_label (labels im) l.
+Proof.
+  induction cs as [|c r IH]; intros i a im l Hl; cbn [build labels]; auto.
+  rewrite IH.
+  - cbn [labels]. destruct c; auto. cbn [find_label]. destruct (String.eqb_spec l l0); auto.
+    subst. exfalso. apply Hl. cbn. now left.
+  - intro H. apply Hl. cbn [label_names flat_map]. apply in_app_iff. now right.
+Qed.
+Lemma build_labels_at : forall cs i a im, NoDup (label_names cs) -> labels_at (build cs i a im) i cs.
+Proof.
+  induction cs as [|c r IH]; intros i a im Hnd n l Hn; [destruct n; discriminate|].
+  assert (Hnd' : NoDup (label_names r)).
+  { cbn [label_names flat_map] in Hnd. now apply Heap.NoDup_app_r in Hnd. }
+  destruct n as [|n]; cbn [nth_error pnth] in *.
+  - inversion Hn; subst. cbn [build]. rewrite build_labels_old.
+    + cbn [labels find_label]. now rewrite String.eqb_refl.
+    + cbn [label_names flat_map app] in Hnd. now inversion Hnd.
+  - cbn [build]. rewrite <- pnth_succ. eapply IH; eauto.
+Qed.
+Theorem mk_image_code_labels cs :
+  NoDup (label_names cs) -> code_at (mk_image cs) 1%positive cs /\ labels_at (mk_image cs) 1%positive cs.
+Proof. intros H. split; [apply build_code_at|now apply build_labels_at]. Qed.
+(* a sub-list of placed code is placed code *)
+Lemma code_at_app im pos a b c : code_at im pos (a ++ b ++ c) -> code_at im (pnth pos (List.length a)) b.
+Proof.
+  intros H n x Hn. rewrite pnth_add. apply H. rewrite nth_error_app2 by lia.
+  replace (List.length a + n - List.length a)%nat with n by lia. rewrite nth_error_app1; auto. apply nth_error_Some. congruence.
+Qed.
+Lemma labels_at_app im pos a b c : labels_at im pos (a ++ b ++ c) -> labels_at im (pnth pos (List.length a)) b.
+Proof.
+  intros H n x Hn. rewrite pnth_add. apply H. rewrite nth_error_app2 by lia.
+  replace (List.length a + n - List.length a)%nat with n by lia. rewrite nth_error_app1; auto. apply nth_error_Some. congruence.
 Qed.
 
-Lemma skip_if_zero_len t body lc :
-  List.length (fst (skip_if_zero t body lc)) = S (S (S (List.length body))).
+(* ---------- the abstraction under a header write ---------- *)
+Lemma is_blk_nonneg p : is_blk p -> 0 <= p.
+Proof. intros (k & Hk & -> & _). unfold HEAP_BASE. lia. Qed.
+Lemma abs_mem_hset s p z x :
+  is_blk p -> is_blk x -> abs_mem (hset s p z) x = Heap.set_hdr (abs_mem s) p z x.
 Proof.
-  destruct (skip_if_zero_shape t body lc) as (c0 & l & E & _). rewrite E.
-  cbn [List.length]. rewrite app_length. cbn [List.length]. lia.
+  intros Hp Hx. unfold Heap.set_hdr, Heap.upd. destruct (Z.eqb_spec x p) as [->|Hne].
+  - unfold abs_mem. cbn [Heap.ps Heap.hdr]. pose proof (is_blk_nonneg p Hp).
+    rewrite hword_hset_same, !hword_hset_other by lia. reflexivity.
+  - unfold abs_mem. destruct Hp as (k & Hk & -> & Hp), Hx as (j & Hj & -> & Hx). unfold HEAP_BASE in *.
+    rewrite !hword_hset_other by lia. reflexivity.
 Qed.
 
-(* the facts about the frame of a skip_if_zero: compare, jump, label *)
-Lemma skip_if_zero_frame im pc t body lc :
-  code_at im pc (fst (skip_if_zero t body lc)) -> labels_at im pc (fst (skip_if_zero t body lc)) ->
-  exists c0 l,
-    PM.find pc (code im) = Some c0 /\
-    PM.find (Pos.succ pc) (code im) = Some (JEL l) /\
-    PM.find (padd pc (2 + List.length body)) (code im) = Some (LAB l) /\
-    find_label (labels im) l = Some (padd pc (2 + List.length body)) /\
-    forall s sp a, frame_ok s sp -> loc_ok t -> lget s sp t = Some a ->
-                   step im c0 s = Next (set_flags s (Some (a, 0))).
+Lemma wrap_id z : min_int <= z <= max_int -> wrap z = z.
+Proof. unfold wrap, min_int, max_int, two63, two64. intros H. rewrite Z.mod_small by lia. lia. Qed.
+
+Lemma st_eqB_refl a : st_eqB a a.
+Proof. repeat split; auto. Qed.
+Lemma st_eqB_trans a b c : st_eqB a b -> st_eqB b c -> st_eqB a c.
+Proof. intros (A1 & A2 & A3 & A4) (B1 & B2 & B3 & B4). repeat split; try congruence. intros x Hx. rewrite A4, B4; auto. Qed.
+Lemma st_eqB_sym a b : st_eqB a b -> st_eqB b a.
+Proof. intros (A1 & A2 & A3 & A4). repeat split; auto. intros x Hx. symmetry; auto. Qed.
+(* erase respects the block-wise equality *)
+Lemma erase_st_eqB a b p : st_eqB a b -> (p = 0 \/ is_blk p) -> st_eqB (Heap.erase p a) (Heap.erase p b).
 Proof.
-  intros C L. destruct (skip_if_zero_shape t body lc) as (c0 & l & E & St). rewrite E in *.
-  exists c0, l.
-  pose proof C as C'. apply code_at_cons in C' as [C0 C']. apply code_at_cons in C' as [C1 _].
-  change (c0 :: JEL l :: body ++ [LAB l])%list with ((c0 :: JEL l :: body) ++ [LAB l])%list in *.
-  apply code_at_app in C as [_ C]. apply labels_at_app in L as [_ L].
-  cbn [List.length] in C, L.
-  repeat split; auto.
-  - apply (C 0%nat). reflexivity.
-  - apply (L 0%nat). reflexivity.
-  - intros; eapply St; eauto.
+  intros (A1 & A2 & A3 & A4) Hp. unfold Heap.erase. destruct (Z.eqb_spec p 0); [repeat split; auto|].
+  destruct Hp as [|Hb]; [contradiction|]. rewrite (A4 p Hb).
+  destruct (Heap.hdr (Heap.m b p) =? 0); (split; [|split; [|split]]); cbn; auto;
+    intros x Hx; unfold Heap.set_hdr, Heap.upd; destruct (x =? p); rewrite ?A2, ?(A4 p Hb), ?(A4 x Hx); auto.
+Qed.
+(* sub-lists by position *)
+Lemma nth_error_skipn_add {A} k : forall (l : list A) n, nth_error (skipn k l) n = nth_error l (k + n).
+Proof. induction k as [|k IH]; intros l n; cbn; auto. destruct l; cbn; auto. now destruct n. Qed.
+Lemma nth_error_firstn_some {A} m : forall (l : list A) n c, nth_error (firstn m l) n = Some c -> nth_error l n = Some c.
+Proof. induction m as [|m IH]; intros l n c H; [destruct n; discriminate|]. destruct l; [destruct n; discriminate|]. destruct n; cbn in *; auto. Qed.
+Lemma code_at_slice im pos cs off E : code_at im pos cs -> firstn (List.length E) (skipn off cs) = E -> code_at im (pnth pos off) E.
+Proof.
+  intros HC HE n c Hn. rewrite pnth_add. apply HC. rewrite <- HE in Hn. apply nth_error_firstn_some in Hn.
+  now rewrite nth_error_skipn_add in Hn.
+Qed.
+Lemma labels_at_slice im pos cs off E : labels_at im pos cs -> firstn (List.length E) (skipn off cs) = E -> labels_at im (pnth pos off) E.
+Proof.
+  intros HC HE n c Hn. rewrite pnth_add. apply HC. rewrite <- HE in Hn. apply nth_error_firstn_some in Hn.
+  now rewrite nth_error_skipn_add in Hn.
 Qed.
 
-Lemma skip_if_zero_zero im pc s sp t body lc :
-  let code := fst (skip_if_zero t body lc) in
-  code_at im pc code -> labels_at im pc code ->
-  frame_ok s sp -> loc_ok t -> lget s sp t = Some 0 ->
-  exec_to im pc s (padd pc (List.length code)) (set_flags s (Some (0, 0))).
+Definition same_but_temp (s s' : xstate) : Prop :=
+  (forall r, r <> TEMP -> rget s' r = rget s r) /\ stack s' = stack s /\ out s' = out s.
+
+Lemma blk_heap_addr p : is_blk p -> heap_addr p.
+Proof. intros H. rewrite <- (Z.add_0_r p). apply is_blk_addr; auto. Qed.
+
+Lemma same_but_temp_regs s s' : same_but_temp s s' -> reg_or0 s' HEAP = reg_or0 s HEAP /\ reg_or0 s' FREE = reg_or0 s FREE.
+Proof. intros (H & _). unfold reg_or0. rewrite !H by discriminate. auto. Qed.
+
+Section Refine.
+Variable im : image.
+
+Ltac nxt HC k := eapply steps_next; [apply (HC k); reflexivity| |].
+Ltac jmp HC k := eapply steps_jump; [apply (HC k); reflexivity| |].
+
+(* ---------- share_block_n ---------- *)
+Theorem x86_share_block_ok pos t n lc s sp p F :
+  let cs := fst (x_share_block_n t n lc) in
+  code_at im pos cs -> labels_at im pos cs ->
+  frame_ok s sp -> loc_ok t -> lget s sp t = Some p ->
+  (p = 0 \/ is_blk p) -> fits32 (Z.of_N n) = true ->
+  (p <> 0 -> wrap (hword s p + Z.of_N n) = hword s p + Z.of_N n) ->
+  exists s', steps im pos s (pnth pos (List.length cs)) s' /\
+     st_eqB (abs_heap F s') (Heap.share p (Z.of_N n) (abs_heap F s)) /\
+     same_but_temp s s' /\ frame_ok s' sp.
 Proof.
-  intros code C L F T A. subst code.
-  destruct (skip_if_zero_frame im pc t body lc C L) as (c0 & l & C0 & C1 & C2 & LL & St).
-  rewrite skip_if_zero_len.
-  eapply exec_next; [exact C0 | apply (St s sp 0 F T A) |].
-  eapply exec_jump; [exact C1 | apply (step_JEL_taken im _ l 0 0); [reflexivity | reflexivity | exact LL] |].
-  eapply exec_next; [exact C2 | reflexivity |].
-  rewrite <- padd_succ. apply exec_refl.
+  intros cs HC HL FR T P Hp Hn Hw. unfold cs in *. clear cs.
+  destruct t as [r|q]; cbn [x_share_block_n skip_if_zero compare_immediate fst app List.length] in *; cbn [lget loc_ok] in *.
+  - (* register *)
+    destruct (Z.eq_dec p 0) as [->|Hp0].
+    + exists (set_flags s (Some (0, 0))). split; [|split; [|split]].
+      * nxt HC 0%nat. { apply step_CMPI0. exact P. }
+        jmp HC 1%nat. { rewrite (step_JEL im _ _ 0 0) by reflexivity. cbn [Z.eqb]. unfold goto_label. rewrite (HL 3%nat _ eq_refl). reflexivity. }
+        nxt HC 3%nat. { reflexivity. }
+        apply steps_refl.
+      * unfold Heap.share. cbn [Z.eqb]. repeat split; reflexivity.
+      * repeat split; reflexivity.
+      * now apply frame_ok_set_flags.
+    + destruct Hp as [|Hb]; [contradiction|]. pose proof (blk_heap_addr p Hb) as Ha.
+      exists (set_flags (hset (set_flags s (Some (p, 0))) p (wrap (hword s p + Z.of_N n))) None). split; [|split; [|split]].
+      * nxt HC 0%nat. { apply step_CMPI0. exact P. }
+        nxt HC 1%nat. { rewrite (step_JEL im _ _ p 0) by reflexivity. destruct (Z.eqb_spec p 0); [contradiction|reflexivity]. }
+        nxt HC 2%nat. { change REFERENCE_COUNT_OFFSET with 0. eapply step_ADDIM_heap; [exact P|exact Ha|exact Hn]. }
+        nxt HC 3%nat. { reflexivity. }
+        apply steps_refl.
+      * unfold Heap.share. destruct (Z.eqb_spec p 0); [contradiction|].
+        split; [reflexivity|split; [reflexivity|split; [reflexivity|]]].
+        intros x Hx. cbn [abs_heap Heap.m]. rewrite Hw by auto.
+        change (abs_mem (set_flags (hset (set_flags s (Some (p, 0))) p (hword s p + Z.of_N n)) None) x)
+          with (abs_mem (hset s p (hword s p + Z.of_N n)) x).
+        now apply abs_mem_hset.
+      * repeat split; reflexivity.
+      * apply frame_ok_set_flags, frame_ok_hset, frame_ok_set_flags, FR.
+  - (* spill slot *)
+    destruct (Z.eq_dec p 0) as [->|Hp0].
+    + exists (set_flags s (Some (0, 0))). split; [|split; [|split]].
+      * nxt HC 0%nat. { apply (step_CMPIM0_slot im s sp); [exact FR|exact T|exact P]. }
+        jmp HC 1%nat. { rewrite (step_JEL im _ _ 0 0) by reflexivity. cbn [Z.eqb]. unfold goto_label. rewrite (HL 4%nat _ eq_refl). reflexivity. }
+        nxt HC 4%nat. { reflexivity. }
+        apply steps_refl.
+      * unfold Heap.share. cbn [Z.eqb]. repeat split; reflexivity.
+      * repeat split; reflexivity.
+      * now apply frame_ok_set_flags.
+    + destruct Hp as [|Hb]; [contradiction|]. pose proof (blk_heap_addr p Hb) as Ha.
+      set (s1 := set_flags s (Some (p, 0))).
+      set (s2 := rset s1 TEMP (Some p)).
+      exists (set_flags (hset s2 p (wrap (hword s p + Z.of_N n))) None). split; [|split; [|split]].
+      * nxt HC 0%nat. { apply (step_CMPIM0_slot im s sp); [exact FR|exact T|exact P]. }
+        nxt HC 1%nat. { rewrite (step_JEL im _ _ p 0) by reflexivity. destruct (Z.eqb_spec p 0); [contradiction|reflexivity]. }
+        nxt HC 2%nat. { rewrite (step_MOVL_slot im s1 sp) by (auto; now apply frame_ok_set_flags). unfold s1. rewrite sget_set_flags, P. reflexivity. }
+        nxt HC 3%nat. { change REFERENCE_COUNT_OFFSET with 0. eapply step_ADDIM_heap; [apply rget_rset_same|exact Ha|exact Hn]. }
+        nxt HC 4%nat. { reflexivity. }
+        apply steps_refl.
+      * assert (SB : same_but_temp s (set_flags (hset s2 p (wrap (hword s p + Z.of_N n))) None)).
+        { split; [|split; reflexivity]. intros r Hr. rewrite rget_set_flags, rget_hset. unfold s2. rewrite rget_rset_other by congruence. reflexivity. }
+        destruct (same_but_temp_regs _ _ SB) as [E1 E2].
+        unfold Heap.share. destruct (Z.eqb_spec p 0); [contradiction|].
+        split; [exact E1|split; [exact E2|split; [reflexivity|]]].
+        intros x Hx. cbn [abs_heap Heap.m]. change (hword s2 p) with (hword s p). rewrite Hw by auto.
+        change (abs_mem (set_flags (hset s2 p (hword s p + Z.of_N n)) None) x)
+          with (abs_mem (hset s p (hword s p + Z.of_N n)) x).
+        now apply abs_mem_hset.
+      * split; [|split; reflexivity]. intros r Hr. rewrite rget_set_flags, rget_hset. unfold s2. rewrite rget_rset_other by congruence. reflexivity.
+      * apply frame_ok_set_flags, frame_ok_hset. unfold s2. apply frame_ok_rset; [discriminate|]. now apply frame_ok_set_flags.
 Qed.
 
-Lemma skip_if_zero_nz im pc s sp t body lc a s2 :
-  let code := fst (skip_if_zero t body lc) in
-  code_at im pc code -> labels_at im pc code ->
-  frame_ok s sp -> loc_ok t -> lget s sp t = Some a -> a <> 0 ->
-  exec_to im (padd pc 2) (set_flags s (Some (a, 0))) (padd pc (2 + List.length body)) s2 ->
-  exec_to im pc s (padd pc (List.length code)) s2.
+(* ---------- erase_block ---------- *)
+Definition same_but_temp_free (s s' : xstate) : Prop :=
+  (forall r, r <> TEMP -> r <> FREE -> rget s' r = rget s r) /\ stack s' = stack s /\ out s' = out s.
+
+Theorem x86_erase_block_ok pos t lc s sp p f F :
+  let cs := fst (x_erase_block t lc) in
+  code_at im pos cs -> labels_at im pos cs ->
+  frame_ok s sp -> loc_ok t -> lget s sp t = Some p -> rget s FREE = Some f ->
+  (p = 0 \/ is_blk p) ->
+  (p <> 0 -> hword s p <> 0 -> wrap (hword s p + -1) = hword s p - 1) ->
+  exists s', steps im pos s (pnth pos (List.length cs)) s' /\
+     st_eqB (abs_heap F s') (Heap.erase p (abs_heap F s)) /\
+     same_but_temp_free s s' /\ (frame_ok s' sp /\ rget s' FREE = Some (Heap.free (Heap.erase p (abs_heap F s)))).
 Proof.
-  intros code C L F T A NZ EB. subst code.
-  destruct (skip_if_zero_frame im pc t body lc C L) as (c0 & l & C0 & C1 & C2 & LL & St).
-  rewrite skip_if_zero_len.
-  eapply exec_next; [exact C0 | apply (St s sp a F T A) |].
-  eapply exec_next; [exact C1 | apply (step_JEL_not im _ l a 0); [reflexivity | exact NZ] |].
-  eapply exec_to_trans; [exact EB|].
-  eapply exec_next; [exact C2 | reflexivity |].
-  rewrite <- padd_succ. apply exec_refl.
+  intros cs HC HL FR T P Hf Hp Hw. unfold cs in *. clear cs.
+  assert (HeapReg : forall s', same_but_temp_free s s' -> reg_or0 s' HEAP = reg_or0 s HEAP).
+  { intros s' (H & _). unfold reg_or0. now rewrite H by discriminate. }
+  assert (Ff : reg_or0 s FREE = f) by (unfold reg_or0; now rewrite Hf).
+  assert (EF0 : Heap.free (Heap.erase 0 (abs_heap F s)) = f) by exact Ff.
+  assert (EFL : p <> 0 -> hword s p = 0 -> Heap.free (Heap.erase p (abs_heap F s)) = p).
+  { intros A B. unfold Heap.erase. destruct (Z.eqb_spec p 0); [contradiction|].
+    change (Heap.hdr (Heap.m (abs_heap F s) p)) with (hword s p). rewrite B. reflexivity. }
+  assert (EFD : p <> 0 -> hword s p <> 0 -> Heap.free (Heap.erase p (abs_heap F s)) = f).
+  { intros A B. unfold Heap.erase. destruct (Z.eqb_spec p 0); [contradiction|].
+    change (Heap.hdr (Heap.m (abs_heap F s) p)) with (hword s p). destruct (Z.eqb_spec (hword s p) 0); [contradiction|exact Ff]. }
+  destruct t as [r|q];
+    cbn [x_erase_block erase_valid_object if_zero_then_else skip_if_zero compare_immediate fst snd app List.length] in *; cbn [lget loc_ok] in *.
+  - (* register *)
+    destruct (Z.eq_dec p 0) as [->|Hp0].
+    + exists (set_flags s (Some (0, 0))). split; [|split; [|split]].
+      * nxt HC 0%nat. { apply step_CMPI0. exact P. }
+        jmp HC 1%nat. { rewrite (step_JEL im _ _ 0 0) by reflexivity. cbn [Z.eqb]. unfold goto_label. rewrite (HL 10%nat _ eq_refl). reflexivity. }
+        nxt HC 10%nat. { reflexivity. }
+        apply steps_refl.
+      * unfold Heap.erase. cbn [Z.eqb]. repeat split; reflexivity.
+      * repeat split; reflexivity.
+      * split; [now apply frame_ok_set_flags|]. rewrite EF0. exact Hf.
+    + destruct Hp as [|Hb]; [contradiction|]. pose proof (blk_heap_addr p Hb) as Ha.
+      set (s1 := set_flags s (Some (p, 0))).
+      set (s2 := set_flags s1 (Some (hword s p, 0))).
+      destruct (Z.eq_dec (hword s p) 0) as [Hh|Hh].
+      * (* last reference: onto the deferred list *)
+        set (s3 := hset s2 p f).
+        exists (rset s3 FREE (Some p)).
+        assert (SB : same_but_temp_free s (rset s3 FREE (Some p))).
+        { split; [|split; reflexivity]. intros r' _ Hr. rewrite rget_rset_other by congruence. reflexivity. }
+        split; [|split; [|split]].
+        -- nxt HC 0%nat. { apply step_CMPI0. exact P. }
+           nxt HC 1%nat. { rewrite (step_JEL im _ _ p 0) by reflexivity. destruct (Z.eqb_spec p 0); [contradiction|reflexivity]. }
+           nxt HC 2%nat. { change REFERENCE_COUNT_OFFSET with 0. eapply step_CMPIM0_heap; [exact P|exact Ha]. }
+           jmp HC 3%nat. { rewrite (step_JEL im _ _ (hword s p) 0) by reflexivity. rewrite Hh. cbn [Z.eqb]. unfold goto_label. rewrite (HL 6%nat _ eq_refl). reflexivity. }
+           nxt HC 6%nat. { reflexivity. }
+           nxt HC 7%nat. { change NEXT_ELEMENT_OFFSET with 0. eapply step_MOVS_heap; [exact P|exact Ha|exact Hf]. }
+           nxt HC 8%nat. { cbn [step]. reflexivity. }
+           nxt HC 9%nat. { reflexivity. }
+           nxt HC 10%nat. { reflexivity. }
+           match goal with |- steps _ _ (rset _ FREE ?v) _ _ => change v with (rget s r) end. rewrite P. apply steps_refl.
+        -- unfold Heap.erase. destruct (Z.eqb_spec p 0); [contradiction|].
+           change (Heap.hdr (Heap.m (abs_heap F s) p)) with (hword s p). rewrite Hh. cbn [Z.eqb].
+           split; [apply (HeapReg _ SB)|split; [|split; [reflexivity|]]].
+           ++ cbn [abs_heap Heap.free]. unfold reg_or0. now rewrite rget_rset_same.
+           ++ intros x Hx. cbn [abs_heap Heap.m Heap.free]. rewrite Ff.
+              change (abs_mem (rset s3 FREE (Some p)) x) with (abs_mem (hset s p f) x). now apply abs_mem_hset.
+        -- exact SB.
+        -- split; [apply frame_ok_rset; [discriminate|]; apply frame_ok_hset, frame_ok_set_flags, frame_ok_set_flags, FR|]. rewrite EFL by auto. apply rget_rset_same.
+      * (* other references remain: decrement *)
+        exists (set_flags (hset s2 p (wrap (hword s p + -1))) None).
+        assert (SB : same_but_temp_free s (set_flags (hset s2 p (wrap (hword s p + -1))) None)).
+        { repeat split; reflexivity. }
+        split; [|split; [|split]].
+        -- nxt HC 0%nat. { apply step_CMPI0. exact P. }
+           nxt HC 1%nat. { rewrite (step_JEL im _ _ p 0) by reflexivity. destruct (Z.eqb_spec p 0); [contradiction|reflexivity]. }
+           nxt HC 2%nat. { change REFERENCE_COUNT_OFFSET with 0. eapply step_CMPIM0_heap; [exact P|exact Ha]. }
+           nxt HC 3%nat. { rewrite (step_JEL im _ _ (hword s p) 0) by reflexivity. destruct (Z.eqb_spec (hword s p) 0); [contradiction|reflexivity]. }
+           nxt HC 4%nat. { change REFERENCE_COUNT_OFFSET with 0. eapply step_ADDIM_heap; [exact P|exact Ha|reflexivity]. }
+           jmp HC 5%nat. { cbn [step]. unfold goto_label. rewrite (HL 9%nat _ eq_refl). reflexivity. }
+           nxt HC 9%nat. { reflexivity. }
+           nxt HC 10%nat. { reflexivity. }
+           apply steps_refl.
+        -- unfold Heap.erase. destruct (Z.eqb_spec p 0); [contradiction|].
+           change (Heap.hdr (Heap.m (abs_heap F s) p)) with (hword s p).
+           destruct (Z.eqb_spec (hword s p) 0); [contradiction|].
+           split; [reflexivity|split; [reflexivity|split; [reflexivity|]]].
+           intros x Hx. cbn [abs_heap Heap.m]. change (hword s2 p) with (hword s p). rewrite Hw by auto.
+           change (abs_mem (set_flags (hset s2 p (hword s p - 1)) None) x) with (abs_mem (hset s p (hword s p - 1)) x).
+           now apply abs_mem_hset.
+        -- exact SB.
+        -- split; [apply frame_ok_set_flags, frame_ok_hset, frame_ok_set_flags, frame_ok_set_flags, FR|]. rewrite EFD by auto. exact Hf.
+  - (* spill slot: the pointer is first loaded into the scratch register *)
+    set (s0 := rset s TEMP (Some p)).
+    assert (F0 : frame_ok s0 sp) by (apply frame_ok_rset; [discriminate|exact FR]).
+    assert (P0 : rget s0 TEMP = Some p) by apply rget_rset_same.
+    assert (Hf0 : rget s0 FREE = Some f) by (unfold s0; rewrite rget_rset_other by discriminate; exact Hf).
+    destruct (Z.eq_dec p 0) as [->|Hp0].
+    + exists (set_flags s0 (Some (0, 0))). split; [|split; [|split]].
+      * nxt HC 0%nat. { rewrite (step_MOVL_slot im s sp FR) by exact T. rewrite P. reflexivity. }
+        nxt HC 1%nat. { apply step_CMPI0. exact P0. }
+        jmp HC 2%nat. { rewrite (step_JEL im _ _ 0 0) by reflexivity. cbn [Z.eqb]. unfold goto_label. rewrite (HL 11%nat _ eq_refl). reflexivity. }
+        nxt HC 11%nat. { reflexivity. }
+        apply steps_refl.
+      * unfold Heap.erase. cbn [Z.eqb].
+        split; [|split; [|split; [reflexivity|intros; reflexivity]]]; cbn [abs_heap Heap.heap Heap.free]; unfold reg_or0;
+          rewrite rget_set_flags; unfold s0; now rewrite rget_rset_other by discriminate.
+      * split; [|split; reflexivity]. intros r' Hr _. rewrite rget_set_flags. unfold s0. now rewrite rget_rset_other by congruence.
+      * split; [now apply frame_ok_set_flags|]. rewrite EF0. exact Hf0.
+    + destruct Hp as [|Hb]; [contradiction|]. pose proof (blk_heap_addr p Hb) as Ha.
+      set (s1 := set_flags s0 (Some (p, 0))).
+      set (s2 := set_flags s1 (Some (hword s p, 0))).
+      destruct (Z.eq_dec (hword s p) 0) as [Hh|Hh].
+      * set (s3 := hset s2 p f).
+        exists (rset s3 FREE (Some p)).
+        assert (SB : same_but_temp_free s (rset s3 FREE (Some p))).
+        { split; [|split; reflexivity]. intros r' Hr1 Hr. rewrite rget_rset_other by congruence.
+          unfold s3. rewrite rget_hset. unfold s2, s1. rewrite !rget_set_flags. unfold s0. now rewrite rget_rset_other by congruence. }
+        split; [|split; [|split]].
+        -- nxt HC 0%nat. { rewrite (step_MOVL_slot im s sp FR) by exact T. rewrite P. reflexivity. }
+           nxt HC 1%nat. { apply step_CMPI0. exact P0. }
+           nxt HC 2%nat. { rewrite (step_JEL im _ _ p 0) by reflexivity. destruct (Z.eqb_spec p 0); [contradiction|reflexivity]. }
+           nxt HC 3%nat. { change REFERENCE_COUNT_OFFSET with 0. eapply step_CMPIM0_heap; [exact P0|exact Ha]. }
+           jmp HC 4%nat. { rewrite (step_JEL im _ _ (hword s p) 0) by reflexivity. rewrite Hh. cbn [Z.eqb]. unfold goto_label. rewrite (HL 7%nat _ eq_refl). reflexivity. }
+           nxt HC 7%nat. { reflexivity. }
+           nxt HC 8%nat. { change NEXT_ELEMENT_OFFSET with 0. eapply step_MOVS_heap; [exact P0|exact Ha|exact Hf0]. }
+           nxt HC 9%nat. { cbn [step]. reflexivity. }
+           nxt HC 10%nat. { reflexivity. }
+           nxt HC 11%nat. { reflexivity. }
+           match goal with |- steps _ _ (rset _ FREE ?v) _ _ => change v with (rget s0 TEMP) end. rewrite P0. apply steps_refl.
+        -- unfold Heap.erase. destruct (Z.eqb_spec p 0); [contradiction|].
+           change (Heap.hdr (Heap.m (abs_heap F s) p)) with (hword s p). rewrite Hh. cbn [Z.eqb].
+           split; [apply (HeapReg _ SB)|split; [|split; [reflexivity|]]].
+           ++ cbn [abs_heap Heap.free]. unfold reg_or0. now rewrite rget_rset_same.
+           ++ intros x Hx. cbn [abs_heap Heap.m Heap.free]. rewrite Ff.
+              change (abs_mem (rset s3 FREE (Some p)) x) with (abs_mem (hset s p f) x). now apply abs_mem_hset.
+        -- exact SB.
+        -- split; [apply frame_ok_rset; [discriminate|]; apply frame_ok_hset, frame_ok_set_flags, frame_ok_set_flags, F0|]. rewrite EFL by auto. apply rget_rset_same.
+      * exists (set_flags (hset s2 p (wrap (hword s p + -1))) None).
+        assert (SB : same_but_temp_free s (set_flags (hset s2 p (wrap (hword s p + -1))) None)).
+        { split; [|split; reflexivity]. intros r' Hr1 Hr. rewrite rget_set_flags, rget_hset. unfold s2, s1. rewrite !rget_set_flags.
+          unfold s0. now rewrite rget_rset_other by congruence. }
+        split; [|split; [|split]].
+        -- nxt HC 0%nat. { rewrite (step_MOVL_slot im s sp FR) by exact T. rewrite P. reflexivity. }
+           nxt HC 1%nat. { apply step_CMPI0. exact P0. }
+           nxt HC 2%nat. { rewrite (step_JEL im _ _ p 0) by reflexivity. destruct (Z.eqb_spec p 0); [contradiction|reflexivity]. }
+           nxt HC 3%nat. { change REFERENCE_COUNT_OFFSET with 0. eapply step_CMPIM0_heap; [exact P0|exact Ha]. }
+           nxt HC 4%nat. { rewrite (step_JEL im _ _ (hword s p) 0) by reflexivity. destruct (Z.eqb_spec (hword s p) 0); [contradiction|reflexivity]. }
+           nxt HC 5%nat. { change REFERENCE_COUNT_OFFSET with 0. eapply step_ADDIM_heap; [exact P0|exact Ha|reflexivity]. }
+           jmp HC 6%nat. { cbn [step]. unfold goto_label. rewrite (HL 10%nat _ eq_refl). reflexivity. }
+           nxt HC 10%nat. { reflexivity. }
+           nxt HC 11%nat. { reflexivity. }
+           apply steps_refl.
+        -- unfold Heap.erase. destruct (Z.eqb_spec p 0); [contradiction|].
+           change (Heap.hdr (Heap.m (abs_heap F s) p)) with (hword s p).
+           destruct (Z.eqb_spec (hword s p) 0); [contradiction|].
+           split; [apply (HeapReg _ SB)|split; [|split; [reflexivity|]]].
+           ++ cbn [abs_heap Heap.free]. unfold reg_or0. rewrite rget_set_flags, rget_hset. unfold s2, s1. rewrite !rget_set_flags.
+              unfold s0. now rewrite rget_rset_other by discriminate.
+           ++ intros x Hx. cbn [abs_heap Heap.m]. change (hword s2 p) with (hword s p). rewrite Hw by auto.
+              change (abs_mem (set_flags (hset s2 p (hword s p - 1)) None) x) with (abs_mem (hset s p (hword s p - 1)) x).
+              now apply abs_mem_hset.
+        -- exact SB.
+        -- split; [apply frame_ok_set_flags, frame_ok_hset, frame_ok_set_flags, frame_ok_set_flags, F0|]. rewrite EFD by auto. exact Hf0.
 Qed.
 
-(* ---------- erase_valid_object: the pointer is a valid block, held in a register ---------- *)
-Lemma erase_valid_exec im pc s r lc p f :
-  let code := fst (erase_valid_object r lc) in
-  code_at im pc code -> labels_at im pc code ->
-  rget s r = Some p -> block_ok p -> rget s FREE = Some f ->
-  exists s' f', exec_to im pc s (padd pc (List.length code)) s' /\
-                rget s' FREE = Some f' /\
-                (heap s', f') = erase_h p (heap s, f) /\
-                (forall r', r' <> FREE -> rget s' r' = rget s r') /\
-                stack s' = stack s /\ out s' = out s.
+(* ---------- more single instructions ---------- *)
+Lemma step_MOVL_heap s a b i p :
+  rget s b = Some p -> heap_addr (p + i) -> step im (MOVL a b i) s = Next (rset s a (Some (hword s (p + i)))).
+Proof. intros R H. cbn [step]. rewrite (ea_heap s b i p) by auto. unfold withm. now rewrite mload_heap. Qed.
+Lemma step_MOVIM_heap s a p j :
+  rget s a = Some p -> heap_addr p -> fits32 j = true -> step im (MOVIM a 0 j) s = Next (hset s p j).
 Proof.
-  intros code C L R B Fr. subst code.
-  unfold erase_valid_object, if_zero_then_else in *. cbn [fst app] in *.
-  pose proof (C 0%nat _ eq_refl) as C0. pose proof (C 1%nat _ eq_refl) as C1.
-  pose proof (C 2%nat _ eq_refl) as C2. pose proof (C 3%nat _ eq_refl) as C3.
-  pose proof (C 4%nat _ eq_refl) as C4. pose proof (C 5%nat _ eq_refl) as C5.
-  pose proof (C 6%nat _ eq_refl) as C6. pose proof (C 7%nat _ eq_refl) as C7.
-  pose proof (L 4%nat _ eq_refl) as L1. pose proof (L 7%nat _ eq_refl) as L2.
-  clear C L. cbn [padd List.length] in *.
-  unfold erase_h. cbn [fst snd]. rewrite (block_ok_nz p B).
-  destruct (Z.eqb_spec (hget (heap s) p) 0) as [E|NE].
-  - (* count zero: push on the free list *)
-    eexists. exists p. split.
-    { eapply exec_next; [exact C0 | apply (step_CMPIM_heap im s r p R B) |].
-      eapply exec_jump; [exact C1 | apply (step_JEL_taken im _ _ (hget (heap s) p) 0); [reflexivity | exact E | exact L1] |].
-      eapply exec_next; [exact C4 | reflexivity |].
-      eapply exec_next; [exact C5 | apply (step_MOVS_heap im _ FREE r p f); [exact R | exact B | exact Fr] |].
-      eapply exec_next; [exact C6 | reflexivity |].
-      eapply exec_next; [exact C7 | reflexivity |].
-      apply exec_refl. }
-    split; [rewrite rget_rset_same; exact R|].
-    split; [reflexivity|].
-    split; [intros r' N; rewrite rget_rset_other by congruence; reflexivity|].
-    split; reflexivity.
-  - (* count non-zero: decrement *)
-    eexists. exists f. split.
-    { eapply exec_next; [exact C0 | apply (step_CMPIM_heap im s r p R B) |].
-      eapply exec_next; [exact C1 | apply (step_JEL_not im _ _ (hget (heap s) p) 0); [reflexivity | exact NE] |].
-      eapply exec_next; [exact C2 | apply (step_ADDIM_heap im _ r p (-1)); [exact R | exact B | reflexivity] |].
-      eapply exec_jump; [exact C3 | apply step_JMPL; exact L2 |].
-      eapply exec_next; [exact C7 | reflexivity |].
-      apply exec_refl. }
-    split; [exact Fr|].
-    split; [reflexivity|].
-    split; [intros r' N; reflexivity|].
-    split; reflexivity.
+  intros R H J. cbn [step]. rewrite J, (ea_heap s a 0 p) by (auto; now rewrite Z.add_0_r).
+  rewrite Z.add_0_r. unfold withm. now rewrite mstore_heap.
+Qed.
+Lemma step_ADDI s a x i :
+  rget s a = Some x -> fits32 i = true -> step im (ADDI a i) s = Next (set_flags (rset s a (Some (wrap (x + i)))) None).
+Proof. intros R J. cbn [step]. rewrite J. unfold need. now rewrite R. Qed.
+
+(* ---------- release_block (straight-line) ---------- *)
+Theorem x86_release_block_ok pos r s p h F :
+  code_at im pos (release_block r) ->
+  rget s r = Some p -> rget s HEAP = Some h -> is_blk p ->
+  exists s', steps im pos s (pnth pos 2) s' /\
+     st_eqB (abs_heap F s') (Heap.release p (abs_heap F s)) /\
+     (forall r', r' <> HEAP -> rget s' r' = rget s r') /\ stack s' = stack s /\ out s' = out s.
+Proof.
+  intros HC P Hh Hb. pose proof (blk_heap_addr p Hb) as Ha. unfold release_block in HC.
+  exists (rset (hset s p h) HEAP (Some p)). split; [|split; [|split; [|split; reflexivity]]].
+  - nxt HC 0%nat. { change NEXT_ELEMENT_OFFSET with 0. eapply step_MOVS_heap; [exact P|exact Ha|exact Hh]. }
+    nxt HC 1%nat. { cbn [step]. reflexivity. }
+    change (rget (hset s p h) r) with (rget s r). rewrite P. apply steps_refl.
+  - unfold Heap.release. split; [|split; [|split; [reflexivity|]]].
+    + cbn [abs_heap Heap.heap]. unfold reg_or0. now rewrite rget_rset_same.
+    + cbn [abs_heap Heap.free]. unfold reg_or0. now rewrite rget_rset_other by discriminate.
+    + intros x Hx. cbn [abs_heap Heap.m Heap.heap]. unfold reg_or0 at 1. rewrite Hh.
+      change (abs_mem (rset (hset s p h) HEAP (Some p)) x) with (abs_mem (hset s p h) x). now apply abs_mem_hset.
+  - intros r' Hr. rewrite rget_rset_other by congruence. reflexivity.
 Qed.
 
-(* erase_block with the pointer in a register *)
-Lemma x86_erase_reg im pc s sp r lc p f :
-  let code := fst (skip_if_zero (XR r) (fst (erase_valid_object r lc)) (snd (erase_valid_object r lc))) in
-  code_at im pc code -> labels_at im pc code ->
-  frame_ok s sp -> r <> 0%N ->
-  rget s r = Some p -> (p = 0 \/ block_ok p) ->
-  rget s FREE = Some f ->
-  exists s' f', exec_to im pc s (padd pc (List.length code)) s' /\
-             rget s' FREE = Some f' /\
-             (heap s', f') = erase_h p (heap s, f) /\
-             (forall r', r' <> FREE -> rget s' r' = rget s r') /\
-             stack s' = stack s /\ out s' = out s.
+(* ---------- one iteration of erase_fields in acquire_block: load a child, erase it ---------- *)
+Lemma abs_heap_rset_temp F s v : st_eqB (abs_heap F (rset s TEMP v)) (abs_heap F s).
 Proof.
-  intros code C L F T G PB Fr. subst code.
-  destruct (Z.eqb_spec p 0) as [Z|NZ].
-  - subst p. exists (set_flags s (Some (0, 0))), f.
-    split; [apply (skip_if_zero_zero im pc s sp (XR r)); auto|].
-    repeat split; auto.
-  - destruct PB as [|B]; [contradiction|].
-    destruct (skip_if_zero_parts im pc _ _ _ C L) as (Cb & Lb).
-    destruct (erase_valid_exec im (padd pc 2) (set_flags s (Some (p, 0))) r lc p f Cb Lb G B Fr)
-      as (s2 & f' & E & R2 & H2 & P2 & S2 & O2).
-    exists s2, f'. split; [eapply (skip_if_zero_nz im pc s sp (XR r)); eauto|].
-    repeat split; auto.
+  unfold abs_heap, reg_or0. split; [|split; [|split; [reflexivity|intros; reflexivity]]]; cbn [Heap.heap Heap.free];
+    now rewrite rget_rset_other by discriminate.
 Qed.
 
-Lemma x_erase_block_XR r lc :
-  x_erase_block (XR r) lc = skip_if_zero (XR r) (fst (erase_valid_object r lc)) (snd (erase_valid_object r lc)).
-Proof. reflexivity. Qed.
-Lemma x_erase_block_XS q lc :
-  fst (x_erase_block (XS q) lc) =
-    (MOVL TEMP STACK (stack_offset q)
-       :: fst (skip_if_zero (XR TEMP) (fst (erase_valid_object TEMP lc)) (snd (erase_valid_object TEMP lc))))%list.
-Proof. reflexivity. Qed.
-
-(* ---------- the two theorems ---------- *)
-(* the meaning of share_block_n on the ISA semantics: for a block pointer living in a register or a spill slot *)
-Theorem x86_share_ok im pc s sp t n lc p f :
-  let code := fst (x_share_block_n t n lc) in
-  code_at im pc code -> labels_at im pc code ->
-  frame_ok s sp -> loc_ok t -> t <> XR TEMP ->
-  lget s sp t = Some p -> (p = 0 \/ block_ok p) -> fits32 (Z.of_N n) = true ->
-  rget s FREE = Some f ->
-  exists s', exec_to im pc s (padd pc (List.length code)) s' /\
-             (heap s', f) = share_h p (Z.of_N n) (heap s, f) /\
-             (forall r, r <> TEMP -> rget s' r = rget s r) /\
-             stack s' = stack s /\ out s' = out s.
+Lemma x86_erase_field_ok pos off lc s sp h2 f F :
+  let cs := MOVL TEMP HEAP off :: fst (x_erase_block (XR TEMP) lc) in
+  code_at im pos cs -> labels_at im pos cs ->
+  (off = 16 \/ off = 32 \/ off = 48) ->
+  frame_ok s sp -> rget s HEAP = Some h2 -> is_blk h2 -> rget s FREE = Some f ->
+  let c := hword s (h2 + off) in
+  (c = 0 \/ is_blk c) ->
+  (c <> 0 -> hword s c <> 0 -> wrap (hword s c + -1) = hword s c - 1) ->
+  exists s', steps im pos s (pnth pos 12) s' /\
+    st_eqB (abs_heap F s') (Heap.erase c (abs_heap F s)) /\
+    same_but_temp_free s s' /\ frame_ok s' sp /\
+    rget s' FREE = Some (Heap.free (Heap.erase c (abs_heap F s))).
 Proof.
-  intros code C L F T NT G PB Fn Fr. subst code.
-  destruct (Z.eqb_spec p 0) as [Z|NZ].
-  - subst p. exists (set_flags s (Some (0, 0))).
-    split; [destruct t; apply (skip_if_zero_zero im pc s sp); auto|].
-    repeat split; auto.
-  - destruct PB as [|B]; [contradiction|].
-    unfold share_h. cbn [fst snd]. rewrite (block_ok_nz p B).
-    destruct t as [r|q]; cbn [x_share_block_n lget loc_ok] in *.
-    + destruct (skip_if_zero_parts im pc _ _ _ C L) as (Cb & Lb).
-      eexists. split.
-      { eapply (skip_if_zero_nz im pc s sp (XR r)); eauto.
-        eapply exec_next; [apply (Cb 0%nat _ eq_refl) | apply (step_ADDIM_heap im _ r p _); [exact G | exact B | exact Fn] |].
-        apply exec_refl. }
-      repeat split; auto.
-    + destruct (skip_if_zero_parts im pc _ _ _ C L) as (Cb & Lb).
-      assert (F0 : frame_ok (set_flags s (Some (p, 0))) sp) by frame.
-      eexists. split.
-      { eapply (skip_if_zero_nz im pc s sp (XS q)); eauto.
-        eapply exec_next; [apply (Cb 0%nat _ eq_refl) | apply (step_MOVL_slot im _ sp F0 TEMP q T) |].
-        eapply exec_next; [apply (Cb 1%nat _ eq_refl) | apply (step_ADDIM_heap im _ TEMP p _); [|exact B|exact Fn] |].
-        { rewrite rget_rset_same. exact G. }
-        apply exec_refl. }
-      split; [reflexivity|].
-      split; [|split; reflexivity].
-      intros r N. rewrite rget_set_flags, rget_set_heap, rget_rset_other by congruence. reflexivity.
+  intros cs HC HL Hoff FR Hh Hb Hf c Hc Hw.
+  assert (Ha : heap_addr (h2 + off)) by (apply is_blk_addr; auto; tauto).
+  set (s0 := rset s TEMP (Some c)).
+  assert (F0 : frame_ok s0 sp) by (apply frame_ok_rset; [discriminate|exact FR]).
+  assert (HC1 : code_at im (pnth pos 1) (fst (x_erase_block (XR TEMP) lc))).
+  { intros n x Hn. rewrite pnth_add. apply HC. exact Hn. }
+  assert (HL1 : labels_at im (pnth pos 1) (fst (x_erase_block (XR TEMP) lc))).
+  { intros n x Hn. rewrite pnth_add. apply HL. exact Hn. }
+  destruct (x86_erase_block_ok (pnth pos 1) (XR TEMP) lc s0 sp c f F HC1 HL1 F0 ltac:(cbn; discriminate)
+              ltac:(cbn [lget]; apply rget_rset_same) ltac:(unfold s0; rewrite rget_rset_other by discriminate; exact Hf) Hc Hw)
+    as (s' & ST & EQ & (SB1 & SB2 & SB3) & FR' & FREE').
+  assert (E0 : st_eqB (Heap.erase c (abs_heap F s0)) (Heap.erase c (abs_heap F s))).
+  { apply erase_st_eqB; auto. apply abs_heap_rset_temp. }
+  exists s'. split; [|split; [|split; [|split]]].
+  - eapply steps_next; [apply (HC 0%nat); reflexivity|eapply step_MOVL_heap; [exact Hh|exact Ha]|].
+    fold c. fold s0.
+    replace (pnth pos 12) with (pnth (pnth pos 1) (List.length (fst (x_erase_block (XR TEMP) lc)))) by (rewrite pnth_add; reflexivity).
+    exact ST.
+  - eapply st_eqB_trans; [exact EQ|exact E0].
+  - split; [|split; [exact SB2|exact SB3]]. intros r' H1 H2. rewrite SB1 by auto. unfold s0. now rewrite rget_rset_other by congruence.
+  - exact FR'.
+  - rewrite FREE'. f_equal. destruct E0 as (_ & E & _). exact E.
 Qed.
 
-Theorem x86_erase_ok im pc s sp t lc p f :
-  let code := fst (x_erase_block t lc) in
-  code_at im pc code -> labels_at im pc code ->
-  frame_ok s sp -> loc_ok t -> t <> XR TEMP -> t <> XR FREE ->
-  lget s sp t = Some p -> (p = 0 \/ block_ok p) ->
-  rget s FREE = Some f ->
-  exists s' f', exec_to im pc s (padd pc (List.length code)) s' /\
-             rget s' FREE = Some f' /\
-             (heap s', f') = erase_h p (heap s, f) /\
-             (forall r, r <> TEMP -> r <> FREE -> rget s' r = rget s r) /\
-             stack s' = stack s /\ out s' = out s.
+(* ---------- acquire_block, the new block in a register ---------- *)
+Lemma erase_hdr_cases a p x :
+  Heap.hdr (Heap.m (Heap.erase p a) x) = Heap.hdr (Heap.m a x) \/
+  Heap.hdr (Heap.m (Heap.erase p a) x) = Heap.hdr (Heap.m a x) - 1 \/
+  Heap.hdr (Heap.m (Heap.erase p a) x) = Heap.free a.
 Proof.
-  intros code C L F T NT NF G PB Fr. subst code.
-  destruct t as [r|q]; cbn [lget loc_ok] in *.
-  - rewrite x_erase_block_XR in *.
-    destruct (x86_erase_reg im pc s sp r lc p f C L F T G PB Fr) as (s' & f' & E & R' & H' & P' & S' & O').
-    exists s', f'. repeat split; auto.
-  - rewrite x_erase_block_XS in *.
-    apply code_at_cons in C as [C0 C].
-    change (?c :: ?cs)%list with ([c] ++ cs)%list in L. apply labels_at_app in L as [_ L].
-    cbn [List.length padd] in L.
-    set (s1 := rset s TEMP (Some p)).
-    assert (F1 : frame_ok s1 sp) by (subst s1; frame).
-    assert (G1 : rget s1 TEMP = Some p) by (subst s1; apply rget_rset_same).
-    assert (Fr1 : rget s1 FREE = Some f).
-    { subst s1. rewrite rget_rset_other by exact TEMP_ne_FREE. exact Fr. }
-    destruct (x86_erase_reg im (Pos.succ pc) s1 sp TEMP lc p f C L F1 TEMP_ne_0 G1 PB Fr1)
-      as (s' & f' & E & R' & H' & P' & S' & O').
-    exists s', f'. split.
-    { eapply exec_next; [exact C0 | |exact E].
-      rewrite (step_MOVL_slot im s sp F TEMP q T), G. reflexivity. }
-    split; [exact R'|]. split; [exact H'|].
-    split; [|split; assumption].
-    intros r N1 N2. rewrite P' by exact N2. subst s1. apply rget_rset_other. congruence.
+  unfold Heap.erase. destruct (p =? 0); auto. destruct (Heap.hdr (Heap.m a p) =? 0); cbn; unfold Heap.set_hdr, Heap.upd;
+    destruct (Z.eqb_spec x p); subst; cbn; auto.
+Qed.
+Lemma erase_free_cases a p : Heap.free (Heap.erase p a) = Heap.free a \/ Heap.free (Heap.erase p a) = p.
+Proof. unfold Heap.erase. destruct (p =? 0); auto. destruct (Heap.hdr (Heap.m a p) =? 0); cbn; auto. Qed.
+Lemma erase_ps_abs a p x : Heap.ps (Heap.m (Heap.erase p a) x) = Heap.ps (Heap.m a x).
+Proof.
+  unfold Heap.erase. destruct (p =? 0); auto. destruct (Heap.hdr (Heap.m a p) =? 0); cbn; unfold Heap.set_hdr, Heap.upd;
+    destruct (Z.eqb_spec x p); subst; auto.
 Qed.
 
-Print Assumptions x86_share_ok.
-Print Assumptions x86_erase_ok.
+(* all headers and the free pointer at least k above the smallest 64-bit integer *)
+Definition bounded (k : Z) (s : xstate) (f : Z) : Prop :=
+  (forall x, is_blk x -> min_int + k <= hword s x <= max_int) /\ min_int + k <= f <= max_int.
+Lemma is_blk_range x : is_blk x -> min_int + 3 <= x <= max_int.
+Proof. intros (k & Hk & -> & H). unfold min_int, max_int, two63, HEAP_BASE, HEAP_SIZE in *. lia. Qed.
+
+Lemma bounded_after_erase F k s f s' c :
+  bounded (k + 1) s f -> 0 <= k <= 2 -> Heap.free (abs_heap F s) = f -> (c = 0 \/ is_blk c) ->
+  st_eqB (abs_heap F s') (Heap.erase c (abs_heap F s)) ->
+  bounded k s' (Heap.free (Heap.erase c (abs_heap F s))).
+Proof.
+  intros [B1 B2] Hk Hf Hc (_ & _ & _ & E). split.
+  - intros x Hx. change (hword s' x) with (Heap.hdr (Heap.m (abs_heap F s') x)). rewrite (E x Hx).
+    specialize (B1 x Hx). change (hword s x) with (Heap.hdr (Heap.m (abs_heap F s) x)) in B1.
+    destruct (erase_hdr_cases (abs_heap F s) c x) as [->|[->| ->]]; rewrite ?Hf; lia.
+  - destruct (erase_free_cases (abs_heap F s) c) as [->| ->]; [rewrite Hf; lia|].
+    destruct Hc as [->|Hb]; [unfold min_int, max_int, two63; lia|]. pose proof (is_blk_range c Hb). lia.
+Qed.
+
+(* ---------- acquire_block, the new block in a register: all three cases ---------- *)
+Ltac rg := repeat first [rewrite rget_set_flags | rewrite rget_hset | rewrite rget_sset | rewrite rget_rset_other by (first [congruence|discriminate])].
+
+Theorem x86_acquire_block_reg_ok pos r lc s sp rv h2 F :
+  let cs := fst (acquire_block (XR r) lc) in
+  code_at im pos cs -> labels_at im pos cs ->
+  frame_ok s sp -> r <> 0%N -> r <> HEAP -> r <> FREE -> r <> TEMP ->
+  rget s HEAP = Some rv -> is_blk rv -> rget s FREE = Some h2 ->
+  (hword s rv = 0 -> is_blk h2) ->
+  (hword s rv = 0 -> hword s h2 <> 0 ->
+     (forall off, off = 16 \/ off = 32 \/ off = 48 -> hword s (h2 + off) = 0 \/ is_blk (hword s (h2 + off))) /\
+     bounded 3 s (hword s h2)) ->
+  exists s', steps im pos s (pnth pos (List.length cs)) s' /\
+    st_eqB (abs_heap (Heap.frontier (snd (Heap.acquire (abs_heap F s)))) s') (snd (Heap.acquire (abs_heap F s))) /\
+    rget s' r = Some rv /\ fst (Heap.acquire (abs_heap F s)) = rv /\
+    (forall r', r' <> r -> r' <> TEMP -> r' <> HEAP -> r' <> FREE -> rget s' r' = rget s r') /\
+    stack s' = stack s /\ out s' = out s /\ frame_ok s' sp.
+Proof.
+  intros cs HC HL FR R0 RH RF RT Hh Hb Hf Hb2 Hch. unfold cs in *. clear cs.
+  unfold acquire_block, erase_fields in *. change (nseq 0 FIELDS_PER_BLOCK) with [0;1;2]%N in *.
+  cbn [fold_left x_erase_block erase_valid_object if_zero_then_else skip_if_zero compare_immediate fst snd app List.length] in *.
+  assert (HA : Heap.heap (abs_heap F s) = rv) by (unfold abs_heap, reg_or0; cbn [Heap.heap]; now rewrite Hh).
+  assert (FA : Heap.free (abs_heap F s) = h2) by (unfold abs_heap, reg_or0; cbn [Heap.free]; now rewrite Hf).
+  pose proof (blk_heap_addr rv Hb) as Ha.
+  set (s1 := rset s r (Some rv)).
+  set (s2 := rset s1 HEAP (Some (hword s rv))).
+  set (s3 := set_flags s2 (Some (hword s rv, 0))).
+  assert (P1 : rget s1 HEAP = Some rv) by (unfold s1; rewrite rget_rset_other by (first [congruence|discriminate]); exact Hh).
+  assert (ST3 : forall pc' s', steps im (pnth pos 3) s3 pc' s' -> steps im pos s pc' s').
+  { intros pc' s' H.
+    nxt HC 0%nat. { cbn [step]. rewrite Hh. reflexivity. }
+    nxt HC 1%nat. { change NEXT_ELEMENT_OFFSET with 0. eapply step_MOVL_heap; [exact P1|rewrite Z.add_0_r; exact Ha]. }
+    nxt HC 2%nat. { apply step_CMPI0. rewrite Z.add_0_r. apply rget_rset_same. }
+    rewrite Z.add_0_r. exact H. }
+  unfold Heap.acquire. rewrite HA, FA.
+  change (Heap.hdr (Heap.m (abs_heap F s) rv)) with (hword s rv).
+  change (Heap.hdr (Heap.m (abs_heap F s) h2)) with (hword s h2).
+  destruct (Z.eqb_spec (hword s rv) 0) as [H0|Hn0]; cbn [negb].
+  2:{ (* case 1 *)
+    exists (hset s3 rv 0). split; [|split; [|split; [|split; [|split; [|split; [|split]]]]]].
+    - apply ST3.
+      nxt HC 3%nat. { rewrite (step_JEL im _ _ (hword s rv) 0) by reflexivity. destruct (Z.eqb_spec (hword s rv) 0); [contradiction|reflexivity]. }
+      nxt HC 4%nat. { change REFERENCE_COUNT_OFFSET with 0. eapply step_MOVIM_heap; [|exact Ha|reflexivity].
+        unfold s3, s2. rewrite rget_set_flags, rget_rset_other by (first [congruence|discriminate]). apply rget_rset_same. }
+      jmp HC 5%nat. { cbn [step]. unfold goto_label. rewrite (HL 53%nat _ eq_refl). reflexivity. }
+      nxt HC 53%nat. { reflexivity. }
+      apply steps_refl.
+    - cbn [snd Heap.frontier]. split; [|split; [|split; [reflexivity|]]].
+      + cbn [abs_heap Heap.heap]. unfold reg_or0. rewrite rget_hset. unfold s3, s2. rewrite rget_set_flags, rget_rset_same. reflexivity.
+      + cbn [abs_heap Heap.free]. unfold reg_or0. rewrite rget_hset. unfold s3, s2, s1. rewrite rget_set_flags, !rget_rset_other by (first [congruence|discriminate]). now rewrite Hf.
+      + intros x Hx. cbn [abs_heap Heap.m]. change (abs_mem (hset s3 rv 0) x) with (abs_mem (hset s rv 0) x). now apply abs_mem_hset.
+    - rewrite rget_hset. unfold s3, s2. rewrite rget_set_flags, rget_rset_other by (first [congruence|discriminate]). apply rget_rset_same.
+    - reflexivity.
+    - intros r' A B C D. rewrite rget_hset. unfold s3, s2, s1. rewrite rget_set_flags, !rget_rset_other by (first [congruence|discriminate]). reflexivity.
+    - reflexivity.
+    - reflexivity.
+    - apply frame_ok_hset, frame_ok_set_flags. unfold s2, s1. apply frame_ok_rset; [discriminate|]. apply frame_ok_rset; auto. }
+  pose proof (Hb2 H0) as Hbh2. pose proof (blk_heap_addr h2 Hbh2) as Ha2.
+  set (s4 := rset s3 HEAP (Some h2)).
+  set (s5 := rset s4 FREE (Some (hword s h2))).
+  set (s6 := set_flags s5 (Some (hword s h2, 0))).
+  assert (P3F : rget s3 FREE = Some h2).
+  { unfold s3, s2, s1. rewrite rget_set_flags, !rget_rset_other by (first [congruence|discriminate]). exact Hf. }
+  assert (P4F : rget s4 FREE = Some h2) by (unfold s4; rewrite rget_rset_other by discriminate; exact P3F).
+  assert (ST6 : forall pc' s', steps im (pnth pos 10) s6 pc' s' -> steps im pos s pc' s').
+  { intros pc' s' H. apply ST3.
+    jmp HC 3%nat. { rewrite (step_JEL im _ _ (hword s rv) 0) by reflexivity. rewrite H0. cbn [Z.eqb]. unfold goto_label. rewrite (HL 6%nat _ eq_refl). reflexivity. }
+    nxt HC 6%nat. { reflexivity. }
+    nxt HC 7%nat. { cbn [step]. rewrite P3F. reflexivity. }
+    nxt HC 8%nat. { change NEXT_ELEMENT_OFFSET with 0. eapply step_MOVL_heap; [exact P4F|rewrite Z.add_0_r; exact Ha2]. }
+    nxt HC 9%nat. { apply step_CMPI0. rewrite Z.add_0_r. apply rget_rset_same. }
+    rewrite Z.add_0_r. exact H. }
+  assert (P6r : rget s6 r = Some rv).
+  { unfold s6, s5, s4, s3, s2. rg. apply rget_rset_same. }
+  assert (P6H : rget s6 HEAP = Some h2).
+  { unfold s6, s5. rg. apply rget_rset_same. }
+  assert (P6o : forall r', r' <> r -> r' <> TEMP -> r' <> HEAP -> r' <> FREE -> rget s6 r' = rget s r').
+  { intros r' A B C D. unfold s6, s5, s4, s3, s2, s1. rg. reflexivity. }
+  assert (F6 : frame_ok s6 sp).
+  { unfold s6, s5, s4, s3, s2, s1. repeat first [apply frame_ok_set_flags | apply frame_ok_rset; [first [assumption|discriminate]|]]. exact FR. }
+  destruct (Z.eqb_spec (hword s h2) 0) as [Hf0|Hfn].
+  - (* case 3: bump *)
+    set (s7 := rset s6 FREE (Some h2)).
+    exists (set_flags (rset s7 FREE (Some (wrap (h2 + 64)))) None).
+    assert (W : wrap (h2 + 64) = h2 + 64).
+    { apply wrap_id. destruct Hbh2 as (k & Hk & -> & Hhi). unfold min_int, max_int, two63, HEAP_BASE, HEAP_SIZE in *. lia. }
+    split; [|split; [|split; [|split; [|split; [|split; [|split]]]]]].
+    + apply ST6.
+      jmp HC 10%nat. { rewrite (step_JEL im _ _ (hword s h2) 0) by reflexivity. rewrite Hf0. cbn [Z.eqb]. unfold goto_label. rewrite (HL 49%nat _ eq_refl). reflexivity. }
+      nxt HC 49%nat. { reflexivity. }
+      nxt HC 50%nat. { cbn [step]. rewrite P6H. reflexivity. }
+      nxt HC 51%nat. { eapply step_ADDI; [apply rget_rset_same|reflexivity]. }
+      nxt HC 52%nat. { reflexivity. }
+      nxt HC 53%nat. { reflexivity. }
+      apply steps_refl.
+    + cbn [snd Heap.frontier]. split; [|split; [|split; [reflexivity|intros; reflexivity]]].
+      * cbn [abs_heap Heap.heap]. unfold reg_or0. rewrite rget_set_flags, rget_rset_other by discriminate. unfold s7. rewrite rget_rset_other by discriminate. now rewrite P6H.
+      * cbn [abs_heap Heap.free]. unfold reg_or0. rewrite rget_set_flags, rget_rset_same. exact W.
+    + rewrite rget_set_flags. unfold s7. rewrite !rget_rset_other by (first [congruence|discriminate]). exact P6r.
+    + reflexivity.
+    + intros r' A B C D. rewrite rget_set_flags. unfold s7. rewrite !rget_rset_other by (first [congruence|discriminate]). now apply P6o.
+    + reflexivity.
+    + reflexivity.
+    + apply frame_ok_set_flags. unfold s7. do 2 (apply frame_ok_rset; [discriminate|]). exact F6.
+  - (* case 2: recycle the first deferred block, erase its children *)
+    destruct (Hch H0 Hfn) as [Hkids [B1 B2]].
+    set (f' := hword s h2) in *.
+    set (sm := hset s6 h2 0).
+    pose proof (is_blk_nonneg h2 Hbh2) as Hh2nn.
+    assert (Wm : forall x, 0 <= x -> x <> h2 -> hword sm x = hword s x).
+    { intros x A B. unfold sm. rewrite hword_hset_other by auto. reflexivity. }
+    assert (PmH : rget sm HEAP = Some h2) by exact P6H.
+    assert (PmF : rget sm FREE = Some f') by (unfold sm, s6, s5; rg; apply rget_rset_same).
+    assert (Fm : frame_ok sm sp) by (apply frame_ok_hset; exact F6).
+    assert (Bm : bounded 3 sm f').
+    { split; [|exact B2]. intros x Hx. destruct (Z.eq_dec x h2) as [->|Hne].
+      - unfold sm. rewrite hword_hset_same. unfold min_int, max_int, two63. lia.
+      - rewrite Wm by (auto using is_blk_nonneg). now apply B1. }
+    set (a1 := {| Heap.m := Heap.set_hdr (Heap.m (abs_heap F s)) h2 0; Heap.heap := h2; Heap.free := f'; Heap.frontier := Heap.frontier (abs_heap F s) |}).
+    assert (Em : st_eqB (abs_heap F sm) a1).
+    { unfold a1. split; [|split; [|split; [reflexivity|]]].
+      - cbn [abs_heap Heap.heap]. unfold reg_or0. now rewrite PmH.
+      - cbn [abs_heap Heap.free]. unfold reg_or0. now rewrite PmF.
+      - intros x Hx. cbn [abs_heap Heap.m]. change (abs_mem sm x) with (abs_mem (hset s h2 0) x). now apply abs_mem_hset. }
+    set (c1 := hword s (h2 + 16)). set (c2 := hword s (h2 + 32)). set (c3 := hword s (h2 + 48)).
+    assert (K1 : c1 = 0 \/ is_blk c1) by (apply Hkids; auto).
+    assert (K2 : c2 = 0 \/ is_blk c2) by (apply Hkids; auto).
+    assert (K3 : c3 = 0 \/ is_blk c3) by (apply Hkids; auto).
+    assert (Cm : hword sm (h2 + 16) = c1 /\ hword sm (h2 + 32) = c2 /\ hword sm (h2 + 48) = c3).
+    { repeat split; apply Wm; lia. }
+    destruct Cm as (Cm1 & Cm2 & Cm3).
+    (* the slots of the recycled block are not changed by the erasures *)
+    assert (Slots : forall s' a, st_eqB (abs_heap F s') (Heap.erase a (abs_heap F sm)) ->
+              hword s' (h2 + 16) = c1 /\ hword s' (h2 + 32) = c2 /\ hword s' (h2 + 48) = c3).
+    { intros s' a (_ & _ & _ & E). specialize (E h2 Hbh2). apply (f_equal Heap.ps) in E. rewrite erase_ps_abs in E.
+      cbn [abs_heap Heap.m abs_mem Heap.ps] in E. inversion E. rewrite Cm1, Cm2, Cm3 in *. auto. }
+    (* first child *)
+    assert (HC1 : code_at im (pnth pos 12) (MOVL TEMP HEAP 16 :: fst (x_erase_block (XR TEMP) lc))) by (apply (code_at_slice _ _ _ 12 _ HC); reflexivity).
+    assert (HL1 : labels_at im (pnth pos 12) (MOVL TEMP HEAP 16 :: fst (x_erase_block (XR TEMP) lc))) by (apply (labels_at_slice _ _ _ 12 _ HL); reflexivity).
+    destruct (x86_erase_field_ok (pnth pos 12) 16 lc sm sp h2 f' F HC1 HL1 ltac:(auto) Fm PmH Hbh2 PmF) as (se1 & ST1 & EQ1 & SB1 & FR1 & FREE1).
+    { rewrite Cm1. exact K1. }
+    { rewrite Cm1. intros A B. apply wrap_id. destruct K1 as [|Kb]; [contradiction|]. pose proof (proj1 Bm c1 Kb). lia. }
+    rewrite Cm1 in *.
+    assert (Efm : Heap.free (abs_heap F sm) = f') by (destruct Em as (_ & E & _); exact E).
+    set (am := abs_heap F sm) in *.
+    pose proof (bounded_after_erase F 2 sm f' se1 c1 Bm ltac:(lia) Efm K1 EQ1) as Bd1. fold am in Bd1.
+    destruct (Slots se1 c1 EQ1) as (_ & S12 & S13).
+    assert (P1H : rget se1 HEAP = Some h2) by (destruct SB1 as (A & _); rewrite A by discriminate; exact PmH).
+    (* second child *)
+    assert (HC2 : code_at im (pnth pos 24) (MOVL TEMP HEAP 32 :: fst (x_erase_block (XR TEMP) (lc + 2 + 1)))) by (apply (code_at_slice _ _ _ 24 _ HC); reflexivity).
+    assert (HL2 : labels_at im (pnth pos 24) (MOVL TEMP HEAP 32 :: fst (x_erase_block (XR TEMP) (lc + 2 + 1)))) by (apply (labels_at_slice _ _ _ 24 _ HL); reflexivity).
+    destruct (x86_erase_field_ok (pnth pos 24) 32 (lc + 2 + 1) se1 sp h2 _ F HC2 HL2 ltac:(auto) FR1 P1H Hbh2 FREE1) as (se2 & ST2 & EQ2 & SB2 & FR2 & FREE2).
+    { rewrite S12. exact K2. }
+    { rewrite S12. intros A B. apply wrap_id. destruct K2 as [|Kb]; [contradiction|]. pose proof (proj1 Bd1 c2 Kb). lia. }
+    rewrite S12 in *.
+    assert (EQ2' : st_eqB (abs_heap F se2) (Heap.erase c2 (Heap.erase c1 am))).
+    { eapply st_eqB_trans; [exact EQ2|]. apply erase_st_eqB; auto. }
+    assert (Ef1 : Heap.free (abs_heap F se1) = Heap.free (Heap.erase c1 am)) by (destruct EQ1 as (_ & E & _); exact E).
+    pose proof (bounded_after_erase F 1 se1 _ se2 c2 Bd1 ltac:(lia) Ef1 K2 EQ2) as Bd2.
+    assert (S23 : hword se2 (h2 + 48) = c3).
+    { destruct EQ2' as (_ & _ & _ & E). specialize (E h2 Hbh2). apply (f_equal Heap.ps) in E. rewrite !erase_ps_abs in E.
+      unfold am in E. cbn [abs_heap Heap.m abs_mem Heap.ps] in E. inversion E. rewrite Cm3 in *. auto. }
+    assert (P2H : rget se2 HEAP = Some h2) by (destruct SB2 as (A & _); rewrite A by discriminate; exact P1H).
+    (* third child *)
+    assert (HC3 : code_at im (pnth pos 36) (MOVL TEMP HEAP 48 :: fst (x_erase_block (XR TEMP) (lc + 2 + 1 + 2 + 1)))) by (apply (code_at_slice _ _ _ 36 _ HC); reflexivity).
+    assert (HL3 : labels_at im (pnth pos 36) (MOVL TEMP HEAP 48 :: fst (x_erase_block (XR TEMP) (lc + 2 + 1 + 2 + 1)))) by (apply (labels_at_slice _ _ _ 36 _ HL); reflexivity).
+    destruct (x86_erase_field_ok (pnth pos 36) 48 (lc + 2 + 1 + 2 + 1) se2 sp h2 _ F HC3 HL3 ltac:(auto) FR2 P2H Hbh2 FREE2) as (se3 & ST3' & EQ3 & SB3 & FR3 & FREE3).
+    { rewrite S23. exact K3. }
+    { rewrite S23. intros A B. apply wrap_id. destruct K3 as [|Kb]; [contradiction|]. pose proof (proj1 Bd2 c3 Kb). lia. }
+    rewrite S23 in *.
+    assert (EQ3' : st_eqB (abs_heap F se3) (Heap.erase c3 (Heap.erase c2 (Heap.erase c1 a1)))).
+    { eapply st_eqB_trans; [exact EQ3|]. apply erase_st_eqB; auto.
+      eapply st_eqB_trans; [exact EQ2'|]. apply erase_st_eqB; auto. apply erase_st_eqB; auto. }
+    exists se3. split; [|split; [|split; [|split; [|split; [|split; [|split]]]]]].
+    + apply ST6.
+      nxt HC 10%nat. { rewrite (step_JEL im _ _ (hword s h2) 0) by reflexivity. fold f'. destruct (Z.eqb_spec f' 0); [contradiction|reflexivity]. }
+      nxt HC 11%nat. { change NEXT_ELEMENT_OFFSET with 0. eapply step_MOVIM_heap; [exact P6H|exact Ha2|reflexivity]. }
+      fold sm.
+      eapply steps_trans; [exact ST1|]. eapply steps_trans; [exact ST2|]. eapply steps_trans; [exact ST3'|].
+      jmp HC 48%nat. { cbn [step]. unfold goto_label. rewrite (HL 52%nat _ eq_refl). reflexivity. }
+      nxt HC 52%nat. { reflexivity. }
+      nxt HC 53%nat. { reflexivity. }
+      apply steps_refl.
+    + cbn [snd]. cbn [abs_heap Heap.m abs_mem Heap.ps fold_left]. fold c1 c2 c3. fold f'.
+      assert (FE : Heap.frontier (Heap.erase c3 (Heap.erase c2 (Heap.erase c1 a1))) = F).
+      { destruct EQ3' as (_ & _ & E & _). rewrite <- E. reflexivity. }
+      change {| Heap.m := Heap.set_hdr (abs_mem s) h2 0; Heap.heap := h2; Heap.free := f'; Heap.frontier := F |} with a1.
+      rewrite FE. exact EQ3'.
+    + destruct SB3 as (A3 & _), SB2 as (A2 & _), SB1 as (A1 & _). rewrite A3, A2, A1 by (first [congruence|discriminate]). exact P6r.
+    + reflexivity.
+    + intros r' A B C D. destruct SB3 as (A3 & _), SB2 as (A2 & _), SB1 as (A1 & _). rewrite A3, A2, A1 by auto. unfold sm. rewrite rget_hset. now apply P6o.
+    + destruct SB3 as (_ & A3 & _), SB2 as (_ & A2 & _), SB1 as (_ & A1 & _). rewrite A3, A2, A1. reflexivity.
+    + destruct SB3 as (_ & _ & A3), SB2 as (_ & _ & A2), SB1 as (_ & _ & A1). rewrite A3, A2, A1. reflexivity.
+    + exact FR3.
+Qed.
+
+(* ---------- acquire_block, the new block in a spill slot ---------- *)
+Theorem x86_acquire_block_spill_ok pos q lc s sp rv h2 F :
+  let cs := fst (acquire_block (XS q) lc) in
+  code_at im pos cs -> labels_at im pos cs ->
+  frame_ok s sp -> slot_ok q ->
+  rget s HEAP = Some rv -> is_blk rv -> rget s FREE = Some h2 ->
+  (hword s rv = 0 -> is_blk h2) ->
+  (hword s rv = 0 -> hword s h2 <> 0 ->
+     (forall off, off = 16 \/ off = 32 \/ off = 48 -> hword s (h2 + off) = 0 \/ is_blk (hword s (h2 + off))) /\
+     bounded 3 s (hword s h2)) ->
+  exists s', steps im pos s (pnth pos (List.length cs)) s' /\
+    st_eqB (abs_heap (Heap.frontier (snd (Heap.acquire (abs_heap F s)))) s') (snd (Heap.acquire (abs_heap F s))) /\
+    sget s' sp q = Some rv /\ fst (Heap.acquire (abs_heap F s)) = rv /\
+    (forall r', r' <> TEMP -> r' <> HEAP -> r' <> FREE -> rget s' r' = rget s r') /\
+    (forall q', slot_ok q' -> q' <> q -> sget s' sp q' = sget s sp q') /\ out s' = out s /\ frame_ok s' sp.
+Proof.
+  intros cs HC HL FR Q Hh Hb Hf Hb2 Hch. unfold cs in *. clear cs.
+  unfold acquire_block, erase_fields in *. change (nseq 0 FIELDS_PER_BLOCK) with [0;1;2]%N in *.
+  cbn [fold_left x_erase_block erase_valid_object if_zero_then_else skip_if_zero compare_immediate fst snd app List.length] in *.
+  assert (HA : Heap.heap (abs_heap F s) = rv) by (unfold abs_heap, reg_or0; cbn [Heap.heap]; now rewrite Hh).
+  assert (FA : Heap.free (abs_heap F s) = h2) by (unfold abs_heap, reg_or0; cbn [Heap.free]; now rewrite Hf).
+  pose proof (blk_heap_addr rv Hb) as Ha.
+  set (s0 := rset s TEMP (Some rv)).
+  assert (F0 : frame_ok s0 sp) by (apply frame_ok_rset; [discriminate|exact FR]).
+  set (s1 := sset s0 sp q (Some rv)).
+  set (s2 := rset s1 HEAP (Some (hword s rv))).
+  set (s3 := set_flags s2 (Some (hword s rv, 0))).
+  assert (P1 : rget s1 HEAP = Some rv) by (unfold s1, s0; rewrite rget_sset, rget_rset_other by discriminate; exact Hh).
+  assert (ST3 : forall pc' s', steps im (pnth pos 4) s3 pc' s' -> steps im pos s pc' s').
+  { intros pc' s' H.
+    nxt HC 0%nat. { cbn [step]. rewrite Hh. reflexivity. }
+    nxt HC 1%nat. { rewrite (step_MOVS_slot im s0 sp F0) by exact Q. unfold s0 at 2. rewrite rget_rset_other by discriminate. rewrite Hh. reflexivity. }
+    nxt HC 2%nat. { change NEXT_ELEMENT_OFFSET with 0. eapply step_MOVL_heap; [exact P1|rewrite Z.add_0_r; exact Ha]. }
+    nxt HC 3%nat. { apply step_CMPI0. rewrite Z.add_0_r. apply rget_rset_same. }
+    rewrite Z.add_0_r. exact H. }
+  unfold Heap.acquire. rewrite HA, FA.
+  change (Heap.hdr (Heap.m (abs_heap F s) rv)) with (hword s rv).
+  change (Heap.hdr (Heap.m (abs_heap F s) h2)) with (hword s h2).
+  destruct (Z.eqb_spec (hword s rv) 0) as [H0|Hn0]; cbn [negb].
+  2:{ (* case 1 *)
+    exists (hset s3 rv 0). split; [|split; [|split; [|split; [|split; [|split; [|split]]]]]].
+    - apply ST3.
+      nxt HC 4%nat. { rewrite (step_JEL im _ _ (hword s rv) 0) by reflexivity. destruct (Z.eqb_spec (hword s rv) 0); [contradiction|reflexivity]. }
+      nxt HC 5%nat. { change REFERENCE_COUNT_OFFSET with 0. eapply step_MOVIM_heap; [|exact Ha|reflexivity].
+        unfold s3, s2, s1, s0. rg. apply rget_rset_same. }
+      jmp HC 6%nat. { cbn [step]. unfold goto_label. rewrite (HL 54%nat _ eq_refl). reflexivity. }
+      nxt HC 54%nat. { reflexivity. }
+      apply steps_refl.
+    - cbn [snd Heap.frontier]. split; [|split; [|split; [reflexivity|]]].
+      + cbn [abs_heap Heap.heap]. unfold reg_or0. rewrite rget_hset. unfold s3, s2. rewrite rget_set_flags, rget_rset_same. reflexivity.
+      + cbn [abs_heap Heap.free]. unfold reg_or0. unfold s3, s2, s1, s0. rg. now rewrite Hf.
+      + intros x Hx. cbn [abs_heap Heap.m]. change (abs_mem (hset s3 rv 0) x) with (abs_mem (hset s rv 0) x). now apply abs_mem_hset.
+    - change (sget (hset s3 rv 0) sp q) with (sget s1 sp q). unfold s1. apply sget_sset_same.
+    - reflexivity.
+    - intros r' A C D. unfold s3, s2, s1, s0. rg. reflexivity.
+    - intros q' Q' N. change (sget (hset s3 rv 0) sp q') with (sget s1 sp q'). unfold s1. rewrite sget_sset_other by (auto; apply FR). apply sget_rset.
+    - reflexivity.
+    - apply frame_ok_hset, frame_ok_set_flags. unfold s2, s1. apply frame_ok_rset; [discriminate|]. apply frame_ok_sset. exact F0. }
+  pose proof (Hb2 H0) as Hbh2. pose proof (blk_heap_addr h2 Hbh2) as Ha2.
+  set (s4 := rset s3 HEAP (Some h2)).
+  set (s5 := rset s4 FREE (Some (hword s h2))).
+  set (s6 := set_flags s5 (Some (hword s h2, 0))).
+  assert (P3F : rget s3 FREE = Some h2).
+  { unfold s3, s2, s1, s0. rg. exact Hf. }
+  assert (P4F : rget s4 FREE = Some h2) by (unfold s4; rewrite rget_rset_other by discriminate; exact P3F).
+  assert (ST6 : forall pc' s', steps im (pnth pos 11) s6 pc' s' -> steps im pos s pc' s').
+  { intros pc' s' H. apply ST3.
+    jmp HC 4%nat. { rewrite (step_JEL im _ _ (hword s rv) 0) by reflexivity. rewrite H0. cbn [Z.eqb]. unfold goto_label. rewrite (HL 7%nat _ eq_refl). reflexivity. }
+    nxt HC 7%nat. { reflexivity. }
+    nxt HC 8%nat. { cbn [step]. rewrite P3F. reflexivity. }
+    nxt HC 9%nat. { change NEXT_ELEMENT_OFFSET with 0. eapply step_MOVL_heap; [exact P4F|rewrite Z.add_0_r; exact Ha2]. }
+    nxt HC 10%nat. { apply step_CMPI0. rewrite Z.add_0_r. apply rget_rset_same. }
+    rewrite Z.add_0_r. exact H. }
+  assert (P6q : sget s6 sp q = Some rv).
+  { change (sget s6 sp q) with (sget s1 sp q). unfold s1. apply sget_sset_same. }
+  assert (P6s : forall q', slot_ok q' -> q' <> q -> sget s6 sp q' = sget s sp q').
+  { intros q' Q' N. change (sget s6 sp q') with (sget s1 sp q'). unfold s1. rewrite sget_sset_other by (auto; apply FR). apply sget_rset. }
+  assert (P6H : rget s6 HEAP = Some h2).
+  { unfold s6, s5. rg. apply rget_rset_same. }
+  assert (P6o : forall r', r' <> TEMP -> r' <> HEAP -> r' <> FREE -> rget s6 r' = rget s r').
+  { intros r' B C D. unfold s6, s5, s4, s3, s2, s1, s0. rg. reflexivity. }
+  assert (F6 : frame_ok s6 sp).
+  { unfold s6, s5, s4, s3, s2, s1. apply frame_ok_set_flags. apply frame_ok_rset; [discriminate|]. apply frame_ok_rset; [discriminate|].
+    apply frame_ok_set_flags. apply frame_ok_rset; [discriminate|]. apply frame_ok_sset. exact F0. }
+  destruct (Z.eqb_spec (hword s h2) 0) as [Hf0|Hfn].
+  - (* case 3: bump *)
+    set (s7 := rset s6 FREE (Some h2)).
+    exists (set_flags (rset s7 FREE (Some (wrap (h2 + 64)))) None).
+    assert (W : wrap (h2 + 64) = h2 + 64).
+    { apply wrap_id. destruct Hbh2 as (k & Hk & -> & Hhi). unfold min_int, max_int, two63, HEAP_BASE, HEAP_SIZE in *. lia. }
+    split; [|split; [|split; [|split; [|split; [|split; [|split]]]]]].
+    + apply ST6.
+      jmp HC 11%nat. { rewrite (step_JEL im _ _ (hword s h2) 0) by reflexivity. rewrite Hf0. cbn [Z.eqb]. unfold goto_label. rewrite (HL 50%nat _ eq_refl). reflexivity. }
+      nxt HC 50%nat. { reflexivity. }
+      nxt HC 51%nat. { cbn [step]. rewrite P6H. reflexivity. }
+      nxt HC 52%nat. { eapply step_ADDI; [apply rget_rset_same|reflexivity]. }
+      nxt HC 53%nat. { reflexivity. }
+      nxt HC 54%nat. { reflexivity. }
+      apply steps_refl.
+    + cbn [snd Heap.frontier]. split; [|split; [|split; [reflexivity|intros; reflexivity]]].
+      * cbn [abs_heap Heap.heap]. unfold reg_or0. rewrite rget_set_flags, rget_rset_other by discriminate. unfold s7. rewrite rget_rset_other by discriminate. now rewrite P6H.
+      * cbn [abs_heap Heap.free]. unfold reg_or0. rewrite rget_set_flags, rget_rset_same. exact W.
+    + exact P6q.
+    + reflexivity.
+    + intros r' B C D. rewrite rget_set_flags. unfold s7. rewrite !rget_rset_other by (first [congruence|discriminate]). now apply P6o.
+    + exact P6s.
+    + reflexivity.
+    + apply frame_ok_set_flags. unfold s7. do 2 (apply frame_ok_rset; [discriminate|]). exact F6.
+  - (* case 2: recycle the first deferred block, erase its children *)
+    destruct (Hch H0 Hfn) as [Hkids [B1 B2]].
+    set (f' := hword s h2) in *.
+    set (sm := hset s6 h2 0).
+    pose proof (is_blk_nonneg h2 Hbh2) as Hh2nn.
+    assert (Wm : forall x, 0 <= x -> x <> h2 -> hword sm x = hword s x).
+    { intros x A B. unfold sm. rewrite hword_hset_other by auto. reflexivity. }
+    assert (PmH : rget sm HEAP = Some h2) by exact P6H.
+    assert (PmF : rget sm FREE = Some f') by (unfold sm, s6, s5; rg; apply rget_rset_same).
+    assert (Fm : frame_ok sm sp) by (apply frame_ok_hset; exact F6).
+    assert (Bm : bounded 3 sm f').
+    { split; [|exact B2]. intros x Hx. destruct (Z.eq_dec x h2) as [->|Hne].
+      - unfold sm. rewrite hword_hset_same. unfold min_int, max_int, two63. lia.
+      - rewrite Wm by (auto using is_blk_nonneg). now apply B1. }
+    set (a1 := {| Heap.m := Heap.set_hdr (Heap.m (abs_heap F s)) h2 0; Heap.heap := h2; Heap.free := f'; Heap.frontier := Heap.frontier (abs_heap F s) |}).
+    assert (Em : st_eqB (abs_heap F sm) a1).
+    { unfold a1. split; [|split; [|split; [reflexivity|]]].
+      - cbn [abs_heap Heap.heap]. unfold reg_or0. now rewrite PmH.
+      - cbn [abs_heap Heap.free]. unfold reg_or0. now rewrite PmF.
+      - intros x Hx. cbn [abs_heap Heap.m]. change (abs_mem sm x) with (abs_mem (hset s h2 0) x). now apply abs_mem_hset. }
+    set (c1 := hword s (h2 + 16)). set (c2 := hword s (h2 + 32)). set (c3 := hword s (h2 + 48)).
+    assert (K1 : c1 = 0 \/ is_blk c1) by (apply Hkids; auto).
+    assert (K2 : c2 = 0 \/ is_blk c2) by (apply Hkids; auto).
+    assert (K3 : c3 = 0 \/ is_blk c3) by (apply Hkids; auto).
+    assert (Cm : hword sm (h2 + 16) = c1 /\ hword sm (h2 + 32) = c2 /\ hword sm (h2 + 48) = c3).
+    { repeat split; apply Wm; lia. }
+    destruct Cm as (Cm1 & Cm2 & Cm3).
+    (* the slots of the recycled block are not changed by the erasures *)
+    assert (Slots : forall s' a, st_eqB (abs_heap F s') (Heap.erase a (abs_heap F sm)) ->
+              hword s' (h2 + 16) = c1 /\ hword s' (h2 + 32) = c2 /\ hword s' (h2 + 48) = c3).
+    { intros s' a (_ & _ & _ & E). specialize (E h2 Hbh2). apply (f_equal Heap.ps) in E. rewrite erase_ps_abs in E.
+      cbn [abs_heap Heap.m abs_mem Heap.ps] in E. inversion E. rewrite Cm1, Cm2, Cm3 in *. auto. }
+    (* first child *)
+    assert (HC1 : code_at im (pnth pos 13) (MOVL TEMP HEAP 16 :: fst (x_erase_block (XR TEMP) lc))) by (apply (code_at_slice _ _ _ 13 _ HC); reflexivity).
+    assert (HL1 : labels_at im (pnth pos 13) (MOVL TEMP HEAP 16 :: fst (x_erase_block (XR TEMP) lc))) by (apply (labels_at_slice _ _ _ 13 _ HL); reflexivity).
+    destruct (x86_erase_field_ok (pnth pos 13) 16 lc sm sp h2 f' F HC1 HL1 ltac:(auto) Fm PmH Hbh2 PmF) as (se1 & ST1 & EQ1 & SB1 & FR1 & FREE1).
+    { rewrite Cm1. exact K1. }
+    { rewrite Cm1. intros A B. apply wrap_id. destruct K1 as [|Kb]; [contradiction|]. pose proof (proj1 Bm c1 Kb). lia. }
+    rewrite Cm1 in *.
+    assert (Efm : Heap.free (abs_heap F sm) = f') by (destruct Em as (_ & E & _); exact E).
+    set (am := abs_heap F sm) in *.
+    pose proof (bounded_after_erase F 2 sm f' se1 c1 Bm ltac:(lia) Efm K1 EQ1) as Bd1. fold am in Bd1.
+    destruct (Slots se1 c1 EQ1) as (_ & S12 & S13).
+    assert (P1H : rget se1 HEAP = Some h2) by (destruct SB1 as (A & _); rewrite A by discriminate; exact PmH).
+    (* second child *)
+    assert (HC2 : code_at im (pnth pos 25) (MOVL TEMP HEAP 32 :: fst (x_erase_block (XR TEMP) (lc + 2 + 1)))) by (apply (code_at_slice _ _ _ 25 _ HC); reflexivity).
+    assert (HL2 : labels_at im (pnth pos 25) (MOVL TEMP HEAP 32 :: fst (x_erase_block (XR TEMP) (lc + 2 + 1)))) by (apply (labels_at_slice _ _ _ 25 _ HL); reflexivity).
+    destruct (x86_erase_field_ok (pnth pos 25) 32 (lc + 2 + 1) se1 sp h2 _ F HC2 HL2 ltac:(auto) FR1 P1H Hbh2 FREE1) as (se2 & ST2 & EQ2 & SB2 & FR2 & FREE2).
+    { rewrite S12. exact K2. }
+    { rewrite S12. intros A B. apply wrap_id. destruct K2 as [|Kb]; [contradiction|]. pose proof (proj1 Bd1 c2 Kb). lia. }
+    rewrite S12 in *.
+    assert (EQ2' : st_eqB (abs_heap F se2) (Heap.erase c2 (Heap.erase c1 am))).
+    { eapply st_eqB_trans; [exact EQ2|]. apply erase_st_eqB; auto. }
+    assert (Ef1 : Heap.free (abs_heap F se1) = Heap.free (Heap.erase c1 am)) by (destruct EQ1 as (_ & E & _); exact E).
+    pose proof (bounded_after_erase F 1 se1 _ se2 c2 Bd1 ltac:(lia) Ef1 K2 EQ2) as Bd2.
+    assert (S23 : hword se2 (h2 + 48) = c3).
+    { destruct EQ2' as (_ & _ & _ & E). specialize (E h2 Hbh2). apply (f_equal Heap.ps) in E. rewrite !erase_ps_abs in E.
+      unfold am in E. cbn [abs_heap Heap.m abs_mem Heap.ps] in E. inversion E. rewrite Cm3 in *. auto. }
+    assert (P2H : rget se2 HEAP = Some h2) by (destruct SB2 as (A & _); rewrite A by discriminate; exact P1H).
+    (* third child *)
+    assert (HC3 : code_at im (pnth pos 37) (MOVL TEMP HEAP 48 :: fst (x_erase_block (XR TEMP) (lc + 2 + 1 + 2 + 1)))) by (apply (code_at_slice _ _ _ 37 _ HC); reflexivity).
+    assert (HL3 : labels_at im (pnth pos 37) (MOVL TEMP HEAP 48 :: fst (x_erase_block (XR TEMP) (lc + 2 + 1 + 2 + 1)))) by (apply (labels_at_slice _ _ _ 37 _ HL); reflexivity).
+    destruct (x86_erase_field_ok (pnth pos 37) 48 (lc + 2 + 1 + 2 + 1) se2 sp h2 _ F HC3 HL3 ltac:(auto) FR2 P2H Hbh2 FREE2) as (se3 & ST3' & EQ3 & SB3 & FR3 & FREE3).
+    { rewrite S23. exact K3. }
+    { rewrite S23. intros A B. apply wrap_id. destruct K3 as [|Kb]; [contradiction|]. pose proof (proj1 Bd2 c3 Kb). lia. }
+    rewrite S23 in *.
+    assert (EQ3' : st_eqB (abs_heap F se3) (Heap.erase c3 (Heap.erase c2 (Heap.erase c1 a1)))).
+    { eapply st_eqB_trans; [exact EQ3|]. apply erase_st_eqB; auto.
+      eapply st_eqB_trans; [exact EQ2'|]. apply erase_st_eqB; auto. apply erase_st_eqB; auto. }
+    exists se3. split; [|split; [|split; [|split; [|split; [|split; [|split]]]]]].
+    + apply ST6.
+      nxt HC 11%nat. { rewrite (step_JEL im _ _ (hword s h2) 0) by reflexivity. fold f'. destruct (Z.eqb_spec f' 0); [contradiction|reflexivity]. }
+      nxt HC 12%nat. { change NEXT_ELEMENT_OFFSET with 0. eapply step_MOVIM_heap; [exact P6H|exact Ha2|reflexivity]. }
+      fold sm.
+      eapply steps_trans; [exact ST1|]. eapply steps_trans; [exact ST2|]. eapply steps_trans; [exact ST3'|].
+      jmp HC 49%nat. { cbn [step]. unfold goto_label. rewrite (HL 53%nat _ eq_refl). reflexivity. }
+      nxt HC 53%nat. { reflexivity. }
+      nxt HC 54%nat. { reflexivity. }
+      apply steps_refl.
+    + cbn [snd]. cbn [abs_heap Heap.m abs_mem Heap.ps fold_left]. fold c1 c2 c3. fold f'.
+      assert (FE : Heap.frontier (Heap.erase c3 (Heap.erase c2 (Heap.erase c1 a1))) = F).
+      { destruct EQ3' as (_ & _ & E & _). rewrite <- E. reflexivity. }
+      change {| Heap.m := Heap.set_hdr (abs_mem s) h2 0; Heap.heap := h2; Heap.free := f'; Heap.frontier := F |} with a1.
+      rewrite FE. exact EQ3'.
+    + destruct SB3 as (_ & A3 & _), SB2 as (_ & A2 & _), SB1 as (_ & A1 & _). unfold sget. rewrite A3, A2, A1. exact P6q.
+    + reflexivity.
+    + intros r' B C D. destruct SB3 as (A3 & _), SB2 as (A2 & _), SB1 as (A1 & _). rewrite A3, A2, A1 by auto. unfold sm. rewrite rget_hset. now apply P6o.
+    + intros q' Q' N. destruct SB3 as (_ & A3 & _), SB2 as (_ & A2 & _), SB1 as (_ & A1 & _). unfold sget. rewrite A3, A2, A1. now apply P6s.
+    + destruct SB3 as (_ & _ & A3), SB2 as (_ & _ & A2), SB1 as (_ & _ & A1). rewrite A3, A2, A1. reflexivity.
+    + exact FR3.
+Qed.
+End Refine.
